@@ -4,11 +4,14 @@ Monitors (online post-conditions on the real functions, wherever the call comes 
   calc_smooth_fa_spectrum, generate_smooth_fa_spectrum (deprecated alias), calc_smoothing_matrix_konno_1998,
   calc_smooth_fa_spectrum_w_custom_matrix, Signal.gen_smooth_fa_spectrum, the Signal.smooth_fa_spectrum property,
   im.calc_bandwidth_freqs / calc_bandwidth_f_min / calc_bandwidth_f_max, get_sig_freq_range
-against the scalar double loop of vf/oracles/konno.py.
+against the scalar double loop of vf/oracles/konno.py. Every monitor snapshots its arguments (and, for object-level
+calls, the record / Fourier cache / smoothing frequencies of the object) at call ENTRY: the oracle is evaluated on that
+snapshot, never on what the object holds after the call, and every argument is compared bit-for-bit with it afterwards.
 Relations between executions (checked by the driver after the related calls returned): deprecated alias == direct form,
 matrix form == direct form, custom-matrix form == object form, a constant spectrum is reproduced, scaling by alpha scales
-the result by |alpha| (bit-for-bit for powers of two).
+the result by |alpha| (bit-for-bit for powers of two), a held result is unchanged by a later call on another input.
 """
+import copy
 import math
 import weakref
 
@@ -18,51 +21,138 @@ from vf import attach, core, gen, tol
 from vf.oracles import konno as O
 
 PROP_ID = 'C07'
-TECHNIQUE = ('runtime post-condition monitors with a scalar (frequency, target)-pair reference of the Konno-Ohmachi window; '
-             'offline relations (constant, scaling, matrix form, alias) over the recorded results')
-RULE = ('cases are of two kinds. func: (frequency grid, amplitude vector, target set, bandwidth b, scale alpha, constant c) '
-        'driven through calc_smooth_fa_spectrum / generate_smooth_fa_spectrum / calc_smoothing_matrix_konno_1998; grids are '
-        'the Fourier grids of records of 4..512 samples (zero padded to a power of two) or synthetic uniform / log grids of '
-        '1..256 bins, with and without the zero-frequency bin; amplitudes are complex Fourier spectra of the shared record '
-        'classes or synthetic (constant, single spike, decaying, signed, complex, integer, float32); targets mix log-random '
-        'frequencies inside the grid, frequencies exactly on the grid, below f1/3, above 3*fmax, or None (default = the '
-        'grid); b in {5,10,20,40,100} u U(5,100) or the default. signal: (record, dt, class Signal/AccSignal, way the '
-        'targets are set, b, bandwidth ratios) driven through the object API, the custom-matrix form and the bandwidth '
-        'functions. distinct = digest of all inputs of the case; non-trivial = at least two distinct |A| among the '
-        'non-zero-frequency bins and at least one target.')
-ASSUMPTIONS = ['frequencies and targets are finite, positive float ndarrays (a single leading zero-frequency bin allowed); '
-               'amplitudes finite', 'bandwidth b in [5, 100] (calls outside are counted, not judged)',
-               'bandwidth limits are judged for ascending smoothing frequencies, ratio in (0,1) (calc_bandwidth_*) / '
-               'ratio > 1 (get_sig_freq_range) and a smoothed spectrum that is not identically zero; an all-zero record '
-               'makes them raise IndexError (empty premise, counted)',
+TECHNIQUE = ('runtime post-condition monitors (entry-snapshot judged) with a scalar (frequency, target)-pair reference of '
+             'the Konno-Ohmachi window; bit-for-bit argument/state purity; offline relations (constant, scaling, matrix '
+             'form, alias, held results) over the recorded results; same-object histories')
+RULE = ('cases are of three kinds. func: (frequency grid, amplitude vector, target set, bandwidth b, scale alpha, constant c) '
+        'driven through calc_smooth_fa_spectrum / generate_smooth_fa_spectrum / calc_smoothing_matrix_konno_1998 '
+        '(positional, keyword and mixed call styles; b as int/float/numpy scalar/0-d array incl. the ends 5 and 100); grids: '
+        'Fourier grids of records of 3..513 samples (around every power of two; 1- and 2-sample records and list/tuple/'
+        'scalar arguments are rejected by the library and counted), a few records of 70000 samples, synthetic uniform / log '
+        'grids of 1..256 bins, spacing 1e-6..1e9 Hz (dt 1e-9..1e3), float64 / float32 / int64 / int32 / int16 / uint8 / uint16 '
+        'grids, with and without the zero-frequency bin; amplitudes: complex Fourier spectra of the shared record classes '
+        '(also a 1e6 offset on a 1e-3 signal) or synthetic (constant, spike, decaying, maximum at first/last bin, plateaus at '
+        'the ends, signed, complex128/64, float32, int64/32/16/8, uint8/16 spanning the dtype range), scaled by 1e-12..1e12; '
+        'targets: log-random inside the grid, exactly on the grid, below f1/3, above 3*fmax, None (= the grid), float32 / '
+        'integer, the frequency array object itself; each array also as strided view, reversed view or read-only array. '
+        'signal: (record in any container/dtype, dt, class, way the targets are set, b, ratios incl. 0 / 1e-12 / 0.999999) '
+        'through the object API, the custom-matrix form (matrix float64/float32/Fortran-ordered/read-only/nested list) and '
+        'the bandwidth functions, a second object of the same shape processed in between. history: 6..14 operations on one '
+        'object (reads, regenerations with options, every way of setting the targets, value mutators same/shorter/longer, '
+        'explicit Fourier regeneration, bandwidth / custom-matrix calls, twins sharing a caller array). distinct = digest '
+        'of all inputs of the case; non-trivial = at least two distinct |A| / record values and at least one target.')
+ASSUMPTIONS = ['frequencies and targets are finite, positive real ndarrays (a single leading zero-frequency bin allowed); '
+               'amplitudes finite; python lists / tuples / scalars for the three array arguments of the function forms are '
+               'rejected by the library (TypeError/IndexError) and are counted, not judged',
+               'bandwidth b in [5, 100] (calls outside are counted, not judged)',
+               'when frequencies AND targets are float32 numpy evaluates the window in single precision: those calls are '
+               'judged by separate clauses "(f32 grid)" with rtol 2e-4 (observed 8e-6) instead of 1e-9',
+               'an integer amplitude vector containing the minimum of its signed dtype is outside a reasonable reading of '
+               '"amplitude spectrum" (abs() overflows in numpy): probed and counted, not judged',
+               'bandwidth limits are judged for ascending smoothing frequencies, ratio in [0,1) (calc_bandwidth_*) / '
+               'ratio > 1 (get_sig_freq_range) and a smoothed spectrum that is not identically zero; an all-zero record and '
+               'ratio = 1 make them raise IndexError (empty premise, counted)',
                'the statement does not say whether a sample exactly at ratio*max belongs to the band: samples within 8 ulp '
                'of the threshold may be resolved either way',
-               'cached reads of Signal.smooth_fa_spectrum are judged only while the Fourier spectrum / target arrays are the '
-               'objects the cache was computed from (staleness is C04)',
+               'object-level calls are judged against the Fourier spectrum the object held at call entry (or, when none was '
+               'cached, the dt x DFT of a snapshot of its values with default padding); cached reads of '
+               'Signal.smooth_fa_spectrum after an explicit Fourier regeneration are C04 territory (counted)',
                'oracle vf/oracles/konno.py is correct (math.log10/sin scalar loop, fsum)']
 RTOL = 1e-9
-MIN_EVALS = {'quick': {'smooth==weighted-mean': 4000, 'smooth.finite': 4000, 'smooth.within[min|A|,max|A|]': 4000,
-                       'matrix==window/sum': 900, 'matrix.nonneg': 900, 'matrix.colsum==1': 900,
-                       'custom-matrix==sum|A_i|M_ij(i>=1)': 300, 'signal.gen_smooth==weighted-mean': 500,
-                       'signal.smooth_fa_spectrum==weighted-mean': 1800, 'alias.generate==weighted-mean': 500,
-                       'bandwidth.f_min<=f_max': 250, 'bandwidth.brackets-peak': 700,
-                       'bandwidth==first/last above ratio*max': 700, 'sigrange.ordered+brackets-peak': 250,
-                       'sigrange==first/last above max/ratio': 250,
-                       'relation.constant-reproduced': 600, 'relation.scaling': 600, 'relation.scaling-pow2-exact': 110,
-                       'relation.matrix-form==direct-form': 600, 'relation.alias==direct': 500,
-                       'relation.custom-matrix(konno)==object-form': 250},
-             'thorough': {}}
-MIN_EVALS['thorough'] = {k: 18 * v for k, v in MIN_EVALS['quick'].items()}
-N_CASES = {'quick': (1440, 640), 'thorough': (28800, 12800)}    # (func cases, signal cases) over all shards
-
+RTOL_F32 = 2e-4
+# precision regime -> (rtol of the weighted mean, relative slack of the range check, tolerance of the column sums)
+PREC = {'': (RTOL, 1e-12, 1e-12), '(f32 grid)': (RTOL_F32, 2e-5, 2e-5), '(c64 amplitudes)': (1e-6, 1e-6, 1e-12)}
+MIN_EVALS = {'quick': {}, 'thorough': {}}       # filled at the end of the module
 CTX = None
 CASE = None                                  # the driver's current case: complete inputs, copied into every witness
-_GEN = weakref.WeakKeyDictionary()           # Signal -> (band, fa_spectrum object, target object) of its last monitored gen
+_GEN = weakref.WeakKeyDictionary()           # Signal -> record of its last monitored generation
+_SERIAL = [0]
 _MEMO = {}
 
 
 def n_shards(tier):
     return 16
+
+
+# ------------------------------------------------------------------------------------------------ snapshots / purity
+def _snap(x):
+    if isinstance(x, np.ndarray):
+        return np.array(x, copy=True)
+    if isinstance(x, (list, tuple)):
+        return copy.deepcopy(x)
+    return x
+
+
+def _same(a, s):
+    """bit-for-bit equality with the snapshot (dtype, shape, bytes)."""
+    if isinstance(a, np.ndarray):
+        return isinstance(s, np.ndarray) and a.dtype == s.dtype and a.shape == s.shape and a.tobytes() == s.tobytes()
+    if isinstance(a, (list, tuple)):
+        return type(a) is type(s) and repr(a) == repr(s)
+    return True
+
+
+def _is_sig(a):
+    return hasattr(a, '_cached_smooth_fa') and hasattr(a, '_values') and hasattr(a, '_cached_fa')
+
+
+def _sig_state(s):
+    """Snapshot of everything a smoothing call may read, taken without triggering any generation."""
+    cf, cs = bool(s._cached_fa), bool(s._cached_smooth_fa)
+    return {'values': np.array(s._values, copy=True), 'dt': s._dt, 'cached_fa': cf,
+            'fa': np.array(s._fa_spectrum, copy=True) if cf else None, 'ff': np.array(s._fa_freqs, copy=True) if cf else None,
+            'tg': np.array(s._smooth_fa_freqs, copy=True), 'cached_s': cs,
+            'sm': np.array(s._smooth_fa_spectrum, copy=True) if cs else None, 'serial': _SERIAL[0],
+            'cls': type(s).__name__}
+
+
+def _sig_changed(s, st, smooth_may_regenerate, targets_may_change):
+    bad = []
+    if not _same(np.asarray(s._values), st['values']):
+        bad.append('values')
+    if s._dt != st['dt']:
+        bad.append('dt')
+    if st['cached_fa'] and not (s._cached_fa and _same(np.asarray(s._fa_spectrum), st['fa'])
+                                and _same(np.asarray(s._fa_freqs), st['ff'])):
+        bad.append('Fourier cache')
+    if not targets_may_change and not _same(np.asarray(s._smooth_fa_freqs), st['tg']):
+        bad.append('smoothing frequencies')
+    if st['cached_s'] and not smooth_may_regenerate and not (s._cached_smooth_fa and _same(np.asarray(s._smooth_fa_spectrum), st['sm'])):
+        bad.append('smoothed-spectrum cache')
+    return bad
+
+
+def _entry_fa(st):
+    """(frequencies, spectrum) the object stood for at call entry: its cache if it had one, else dt x DFT (default padding)
+    of the value snapshot, computed by the same numpy call the statement of C06 prescribes."""
+    if st['cached_fa']:
+        return st['ff'], st['fa']
+    v = st['values']
+    if v.ndim != 1 or len(v) < 1:
+        return None
+    n_factor = 2 ** int(np.ceil(np.log2(len(v))))
+    points = int(n_factor / 2)
+    return np.arange(points) / (n_factor * st['dt']), np.fft.fft(v, n=n_factor)[:points] * st['dt']
+
+
+def _pre_fn(args, kwargs):
+    """Snapshot every array / sequence / Signal argument of a function-level call."""
+    snaps = {}
+    for a in list(args) + list(kwargs.values()):
+        if isinstance(a, (np.ndarray, list, tuple)):
+            snaps[id(a)] = (a, _snap(a))
+        elif _is_sig(a):
+            snaps[id(a)] = (a, _sig_state(a))
+    return snaps
+
+
+def _sn(pre, obj):
+    e = pre.get(id(obj)) if pre else None
+    return obj if e is None else e[1]
+
+
+def _args_changed(pre):
+    return [('%s%s' % (type(o).__name__, getattr(o, 'shape', ''))) for o, s in pre.values() if not _is_sig(o) and not _same(o, s)]
 
 
 # ------------------------------------------------------------------------------------------------ oracle plumbing
@@ -78,18 +168,21 @@ def _columns(fnz, tg, band):
 
 
 def _domain(ctx, freqs, spec, targets, band, who):
-    """Parse one call; returns (non-zero frequencies, their amplitudes, targets) or None (counted) when the call is
-    outside the quantifier of the statement."""
+    """Parse one call; returns (non-zero frequencies, their amplitudes, targets, single-precision flag) or None (counted)
+    when the call is outside the quantifier of the statement."""
     try:
         f = np.asarray(freqs)
         if f.ndim != 1 or f.dtype.kind not in 'fiu' or f.size == 0:
             raise ValueError
+        fdt = f.dtype
         f = f.astype(float)
         a = None
         if spec is not None:
             a = np.asarray(spec)
             if a.shape != f.shape or a.dtype.kind not in 'fiuc':
                 raise ValueError
+            if a.dtype.kind in 'iu':
+                a = a.astype(np.int64) if a.dtype.kind == 'i' else a.astype(np.uint64)
         if f[0] == 0:
             f = f[1:]
             a = None if a is None else a[1:]
@@ -98,11 +191,12 @@ def _domain(ctx, freqs, spec, targets, band, who):
         if a is not None and not np.all(np.isfinite(a)):
             raise ValueError
         if targets is None:
-            t = f
+            t, tdt = f, fdt
         else:
             t = np.asarray(targets)
             if t.ndim != 1 or t.size == 0 or t.dtype.kind not in 'fiu':
                 raise ValueError
+            tdt = t.dtype
             t = t.astype(float)
             if not np.all(np.isfinite(t)) or not np.all(t > 0):
                 raise ValueError
@@ -113,7 +207,14 @@ def _domain(ctx, freqs, spec, targets, band, who):
     if not (5 <= b <= 100):
         ctx.observe('band-outside-[5,100]:%s' % who)
         return None
-    return f, a, t
+    prec = ''
+    if np.result_type(fdt, tdt) in (np.dtype(np.float32), np.dtype(np.float16)):
+        prec = '(f32 grid)'                 # numpy evaluates the window in single precision
+    elif spec is not None and np.asarray(spec).dtype == np.dtype(np.complex64):
+        prec = '(c64 amplitudes)'           # numpy evaluates |A| in single precision
+    if prec:
+        ctx.observe('single-precision-calls' + prec)
+    return f, a, t, prec
 
 
 def _wit(at, raw_case=None, **detail):
@@ -130,21 +231,49 @@ def _scale(anz):
     return float(np.max(np.abs(anz))) if anz.size else 0.0
 
 
+def _raw_func(freqs, spec, targets, band):
+    return {'kind': 'func', 'freqs': np.asarray(freqs), 'spec': np.asarray(spec),
+            'targets': None if targets is None else np.asarray(targets), 'band': band}
+
+
+def _raw_sig(st, band=None, **kw):
+    d = {'kind': 'signal', 'cls': st['cls'], 'values': st['values'], 'dt': st['dt'], 'how': 'setter', 'targets': st['tg'],
+         'band': band}
+    d.update(kw)
+    return d
+
+
 # ------------------------------------------------------------------------------------------------ monitors
-def check_smooth(ctx, at, freqs, spec, targets, band, result, clause='smooth==weighted-mean', extras=True):
+def _purity_args(ctx, at, pre, raw):
+    if not pre:
+        return
+    bad = _args_changed(pre)
+    ctx.check(not bad, 'purity.arguments-unchanged', lambda: _wit(at, raw, changed=bad),
+              '%s changed its argument(s) %s' % (at, bad))
+
+
+def _purity_sig(ctx, at, asig, st, smooth_may_regenerate, targets_may_change, raw, extra=()):
+    bad = _sig_changed(asig, st, smooth_may_regenerate, targets_may_change) + list(extra)
+    ctx.check(not bad, 'purity.signal-state-unchanged', lambda: _wit(at, raw, changed=bad),
+              '%s changed %s of the object' % (at, bad))
+
+
+def check_smooth(ctx, at, freqs, spec, targets, band, result, clause='smooth==weighted-mean', extras=True, raw=None):
+    """freqs / spec / targets are the ENTRY snapshots of the arguments."""
     d = _domain(ctx, freqs, spec, targets, band, at)
     if d is None:
         return
-    fnz, anz, tg = d
+    fnz, anz, tg, sfx = d
+    rtol, slack_rel, _ = PREC[sfx]
     ref = _reference(fnz, anz, tg, band)
     got = np.asarray(result)
     scale = _scale(anz)
-    raw = {'kind': 'func', 'freqs': np.asarray(freqs), 'spec': np.asarray(spec),
-           'targets': None if targets is None else np.asarray(targets), 'band': band}
-    ctx.check(tol.close(got, ref, scale=scale, rtol=RTOL), clause,
+    if raw is None:
+        raw = _raw_func(freqs, spec, targets, band)
+    ctx.check(tol.close(got, ref, scale=scale, rtol=rtol), clause + sfx,
               lambda: _wit(at, raw, got=got, expected=ref, band=band),
               '%s(n_f=%d, n_targets=%d, band=%r): %s' % (at, len(fnz), len(tg), band,
-                                                         tol.describe(got, ref, scale=scale, rtol=RTOL)))
+                                                         tol.describe(got, ref, scale=scale, rtol=rtol)))
     if not extras:
         return
     n_on = int(np.sum(np.isin(tg, fnz)))
@@ -156,14 +285,14 @@ def check_smooth(ctx, at, freqs, spec, targets, band, result, clause='smooth==we
     ctx.check(finite, 'smooth.finite', lambda: _wit(at, raw, got=got, band=band),
               '%s returned non-finite values or a wrong shape %s (expected %s)' % (at, got.shape, ref.shape))
     if finite:
-        mags = np.abs(anz)
+        mags = np.abs(anz).astype(float)
         lo, hi = float(mags.min()), float(mags.max())
-        slack = 1e-12 * hi
+        slack = slack_rel * hi
         if got.dtype.kind == 'c':
             inr = bool(np.all(got.imag == 0) and np.all(got.real >= lo - slack) and np.all(got.real <= hi + slack))
         else:
             inr = bool(np.all(got >= lo - slack) and np.all(got <= hi + slack))
-        ctx.check(inr, 'smooth.within[min|A|,max|A|]', lambda: _wit(at, raw, got=got, lo=lo, hi=hi, band=band),
+        ctx.check(inr, 'smooth.within[min|A|,max|A|]' + sfx, lambda: _wit(at, raw, got=got, lo=lo, hi=hi, band=band),
                   '%s: smoothed values [%r, %r] leave [min|A|, max|A|] = [%r, %r]'
                   % (at, np.min(got.real), np.max(got.real), lo, hi))
 
@@ -173,7 +302,10 @@ def _post_calc(args, kwargs, result, pre):
     spec = args[1] if len(args) > 1 else kwargs['fa_spectrum']
     targets = args[2] if len(args) > 2 else kwargs.get('smooth_fa_frequencies')
     band = args[3] if len(args) > 3 else kwargs.get('band', 40)
-    check_smooth(CTX, 'calc_smooth_fa_spectrum', freqs, spec, targets, band, result)
+    f, a, t = _sn(pre, freqs), _sn(pre, spec), _sn(pre, targets)
+    raw = _raw_func(f, a, t, band) if CASE is None else None
+    _purity_args(CTX, 'calc_smooth_fa_spectrum', pre, raw)
+    check_smooth(CTX, 'calc_smooth_fa_spectrum', f, a, t, band, result, raw=raw)
 
 
 def _post_generate(args, kwargs, result, pre):
@@ -181,30 +313,38 @@ def _post_generate(args, kwargs, result, pre):
     freqs = args[1] if len(args) > 1 else kwargs['fa_frequencies']
     spec = args[2] if len(args) > 2 else kwargs['fa_spectrum']
     band = args[3] if len(args) > 3 else kwargs.get('band', 40)
-    check_smooth(CTX, 'generate_smooth_fa_spectrum', freqs, spec, targets, band, result,
-                 clause='alias.generate==weighted-mean', extras=False)
+    f, a, t = _sn(pre, freqs), _sn(pre, spec), _sn(pre, targets)
+    raw = _raw_func(f, a, t, band) if CASE is None else None
+    _purity_args(CTX, 'generate_smooth_fa_spectrum', pre, raw)
+    check_smooth(CTX, 'generate_smooth_fa_spectrum', f, a, t, band, result, clause='alias.generate==weighted-mean',
+                 extras=False, raw=raw)
 
 
 def _post_matrix(args, kwargs, result, pre):
     ctx = CTX
+    at = 'calc_smoothing_matrix_konno_1998'
     freqs = args[0] if len(args) > 0 else kwargs['fa_frequencies']
     targets = args[1] if len(args) > 1 else kwargs.get('smooth_fa_frequencies')
     band = args[2] if len(args) > 2 else kwargs.get('band', 40)
-    d = _domain(ctx, freqs, None, targets, band, 'calc_smoothing_matrix_konno_1998')
+    freqs, targets = _sn(pre, freqs), _sn(pre, targets)
+    raw = None
+    if CASE is None:
+        raw = _raw_func(freqs, np.ones(len(np.asarray(freqs))), targets, band)
+    _purity_args(ctx, at, pre, raw)
+    d = _domain(ctx, freqs, None, targets, band, at)
     if d is None:
         return
-    fnz, _, tg = d
+    fnz, _, tg, sfx = d
+    rtol, _, cs_tol = PREC[sfx]
     cols = _columns(fnz, tg, band)
     ref = np.array(O.matrix(cols), dtype=float).reshape(len(fnz), len(tg))
     got = np.asarray(result)
-    raw = {'kind': 'func', 'freqs': np.asarray(freqs), 'spec': np.ones(len(np.asarray(freqs))),
-           'targets': None if targets is None else np.asarray(targets), 'band': band}
-    at = 'calc_smoothing_matrix_konno_1998'
     wit = lambda: _wit(at, raw, got=got, band=band)
     shape_ok = got.shape == ref.shape
-    ctx.check(shape_ok and tol.close(got, ref, scale=np.max(ref, axis=0)[np.newaxis, :], rtol=RTOL), 'matrix==window/sum', wit,
+    cscale = np.max(ref, axis=0)[np.newaxis, :]
+    ctx.check(shape_ok and tol.close(got, ref, scale=cscale, rtol=rtol), 'matrix==window/sum' + sfx, wit,
               'smoothing matrix (n_f=%d, n_targets=%d, band=%r): %s'
-              % (len(fnz), len(tg), band, tol.describe(got, ref, scale=np.max(ref, axis=0)[np.newaxis, :], rtol=RTOL)
+              % (len(fnz), len(tg), band, tol.describe(got, ref, scale=cscale, rtol=rtol)
                  if shape_ok else 'shape %s expected %s' % (got.shape, ref.shape)))
     if not shape_ok:
         return
@@ -213,8 +353,9 @@ def _post_matrix(args, kwargs, result, pre):
     colsum = np.array([math.fsum(got[:, j].tolist()) if np.all(np.isfinite(got[:, j])) else np.nan
                        for j in range(got.shape[1])])
     with np.errstate(invalid='ignore'):
-        ctx.check(bool(np.all(np.abs(colsum - 1.0) <= 1e-12)), 'matrix.colsum==1', wit,
-                  'column sums of the smoothing matrix differ from 1: worst %r' % (colsum[np.argmax(np.abs(np.nan_to_num(colsum, nan=np.inf) - 1))],))
+        ctx.check(bool(np.all(np.abs(colsum - 1.0) <= cs_tol)), 'matrix.colsum==1' + sfx, wit,
+                  'column sums of the smoothing matrix differ from 1: worst %r'
+                  % (colsum[np.argmax(np.abs(np.nan_to_num(colsum, nan=np.inf) - 1))],))
 
 
 def _post_custom(args, kwargs, result, pre):
@@ -222,9 +363,19 @@ def _post_custom(args, kwargs, result, pre):
     asig = args[0] if len(args) > 0 else kwargs['asig']
     m = args[1] if len(args) > 1 else kwargs['smooth_matrix']
     at = 'calc_smooth_fa_spectrum_w_custom_matrix'
-    with attach.paused():
-        spec = np.asarray(asig.fa_spectrum)
-    mm = np.asarray(m)
+    if not _is_sig(asig):
+        ctx.observe('out-of-domain:%s' % at)
+        return
+    st = pre[id(asig)][1]
+    mm = np.asarray(_sn(pre, m))
+    raw = _raw_sig(st, matrix=mm)
+    _purity_args(ctx, at, pre, raw)
+    _purity_sig(ctx, at, asig, st, False, False, raw)
+    ent = _entry_fa(st)
+    if ent is None:
+        ctx.observe('out-of-domain:%s' % at)
+        return
+    spec = np.asarray(ent[1])
     if mm.ndim != 2 or mm.shape[0] != len(spec) - 1 or mm.dtype.kind not in 'fiu' or not np.all(np.isfinite(mm)) \
             or not np.all(np.isfinite(spec)):
         ctx.observe('out-of-domain:%s' % at)
@@ -234,103 +385,124 @@ def _post_custom(args, kwargs, result, pre):
     ref = np.array(ref, dtype=float)
     scale = np.array(scale, dtype=float)
     got = np.asarray(result)
-    raw = {'kind': 'signal', 'cls': type(asig).__name__, 'values': np.asarray(asig.values), 'dt': asig.dt, 'how': 'setter',
-           'targets': np.asarray(asig.smooth_fa_freqs), 'band': None, 'matrix': mm}
-    ctx.check(tol.close(got, ref, scale=scale, rtol=RTOL, atol=1e-300), 'custom-matrix==sum|A_i|M_ij(i>=1)',
-              lambda: _wit(at, raw, got=got, expected=ref, matrix=mm),
-              '%s (n_f=%d, columns=%d): %s' % (at, len(mags), mm.shape[1], tol.describe(got, ref, scale=scale, rtol=RTOL)))
+    rtol = 1e-5 if (mm.dtype == np.float32 or spec.dtype == np.complex64) else RTOL   # numpy evaluates the dot in single
+    ctx.check(tol.close(got, ref, scale=scale, rtol=rtol, atol=1e-300), 'custom-matrix==sum|A_i|M_ij(i>=1)',
+              lambda: _wit(at, raw, got=got, expected=ref),
+              '%s (n_f=%d, columns=%d): %s' % (at, len(mags), mm.shape[1], tol.describe(got, ref, scale=scale, rtol=rtol)))
 
 
-def _signal_raw(asig, band):
-    return {'kind': 'signal', 'cls': type(asig).__name__, 'values': np.asarray(asig.values), 'dt': asig.dt,
-            'how': 'setter', 'targets': np.asarray(asig.smooth_fa_freqs), 'band': band}
+def _pre_gen_smooth(args, kwargs):
+    self = args[0]
+    given = args[1] if len(args) > 1 else kwargs.get('smooth_fa_freqs')
+    return {'st': _sig_state(self), 'given': (given, _snap(given))}
 
 
 def _post_gen_smooth(args, kwargs, result, pre):
     ctx = CTX
+    at = 'Signal.gen_smooth_fa_spectrum'
     self = args[0]
-    given = args[1] if len(args) > 1 else kwargs.get('smooth_fa_freqs')
     band = args[2] if len(args) > 2 else kwargs.get('band', 40)
-    with attach.paused():
-        freqs = self.fa_freqs
-        spec = self.fa_spectrum
-        tg = self.smooth_fa_freqs
+    st = pre['st']
+    given, gsnap = pre['given']
     got = self._smooth_fa_spectrum
-    _GEN[self] = (band, self._fa_spectrum, self._smooth_fa_freqs)
-    use = tg if given is None else given
-    d = _domain(ctx, freqs, spec, use, band, 'Signal.gen_smooth_fa_spectrum')
+    _SERIAL[0] += 1
+    _GEN[self] = {'band': band, 'fa_obj': self._fa_spectrum, 'tg_obj': self._smooth_fa_freqs,
+                  'result': np.array(got, copy=True), 'serial': _SERIAL[0]}
+    use = st['tg'] if given is None else gsnap
+    raw = _raw_sig(st, band, targets=np.asarray(use), how='gen_arg' if given is not None else 'setter')
+    _purity_sig(ctx, at, self, st, True, given is not None, raw,
+                extra=[] if _same(given, gsnap) else ['the smooth_fa_freqs argument'])
+    ent = _entry_fa(st)
+    if ent is None:
+        ctx.observe('out-of-domain:%s' % at)
+        return
+    d = _domain(ctx, ent[0], ent[1], use, band, at)
     if d is None:
         return
-    fnz, anz, t = d
+    fnz, anz, t, prec = d
+    rtol = PREC[prec][0]
     ref = _reference(fnz, anz, t, band)
     scale = _scale(anz)
-    ok = tol.close(got, ref, scale=scale, rtol=RTOL) and bool(self._cached_smooth_fa) and np.array_equal(np.asarray(tg), np.asarray(use))
+    now = np.asarray(self._smooth_fa_freqs)
+    ok = tol.close(got, ref, scale=scale, rtol=rtol) and bool(self._cached_smooth_fa) and \
+        now.shape == np.asarray(use).shape and bool(np.all(now == np.asarray(use)))
     ctx.check(ok, 'signal.gen_smooth==weighted-mean',
-              lambda: _wit('Signal.gen_smooth_fa_spectrum', _signal_raw(self, band), got=np.asarray(got), expected=ref, band=band),
-              'gen_smooth_fa_spectrum(band=%r, targets %s): stored spectrum %s; cached flag %r'
-              % (band, 'given' if given is not None else 'kept', tol.describe(got, ref, scale=scale, rtol=RTOL),
-                 self._cached_smooth_fa))
+              lambda: _wit(at, raw, got=np.asarray(got), expected=ref, band=band, targets_now=now),
+              'gen_smooth_fa_spectrum(band=%r, targets %s): stored spectrum %s; cached flag %r; targets stored == targets used: %r'
+              % (band, 'given' if given is not None else 'kept', tol.describe(got, ref, scale=scale, rtol=rtol),
+                 self._cached_smooth_fa, now.shape == np.asarray(use).shape and bool(np.all(now == np.asarray(use)))))
 
 
 def _pre_prop(self):
-    return bool(self._cached_smooth_fa)
+    return _sig_state(self)
 
 
-def _post_prop(self, result, was_cached):
+def _post_prop(self, result, st):
     ctx = CTX
+    at = 'Signal.smooth_fa_spectrum'
+    was_cached = st['cached_s']
     rec = _GEN.get(self)
+    raw = _raw_sig(st, None if rec is None else rec['band'])
+    _purity_sig(ctx, at, self, st, not was_cached, False, raw)
     if rec is None:
         ctx.observe('property-read-without-monitored-generation')
         return
-    band, fa_obj, tg_obj = rec
-    if self._fa_spectrum is not fa_obj or self._smooth_fa_freqs is not tg_obj:
+    if self._fa_spectrum is not rec['fa_obj'] or self._smooth_fa_freqs is not rec['tg_obj'] or (was_cached and not st['cached_fa']):
         ctx.observe('cached-read-after-state-change(C04 territory)')
         return
-    with attach.paused():
-        freqs = self.fa_freqs
-        spec = self.fa_spectrum
-        tg = self.smooth_fa_freqs
-    d = _domain(ctx, freqs, spec, tg, band, 'Signal.smooth_fa_spectrum')
+    band = rec['band']
+    ent = _entry_fa(st)
+    if ent is None:
+        ctx.observe('out-of-domain:%s' % at)
+        return
+    d = _domain(ctx, ent[0], ent[1], st['tg'], band, at)
     if d is None:
         return
-    fnz, anz, t = d
+    fnz, anz, t, prec = d
+    rtol = PREC[prec][0]
     ref = _reference(fnz, anz, t, band)
     scale = _scale(anz)
-    ctx.check(tol.close(result, ref, scale=scale, rtol=RTOL), 'signal.smooth_fa_spectrum==weighted-mean',
-              lambda: _wit('Signal.smooth_fa_spectrum', _signal_raw(self, band), got=np.asarray(result), expected=ref, band=band,
-                           was_cached=was_cached),
+    ctx.check(tol.close(result, ref, scale=scale, rtol=rtol), 'signal.smooth_fa_spectrum==weighted-mean',
+              lambda: _wit(at, raw, got=np.asarray(result), expected=ref, band=band, was_cached=was_cached),
               'Signal.smooth_fa_spectrum (band=%r, cached before=%r): %s'
-              % (band, was_cached, tol.describe(result, ref, scale=scale, rtol=RTOL)))
+              % (band, was_cached, tol.describe(result, ref, scale=scale, rtol=rtol)))
     ctx.observe('property-read-cached' if was_cached else 'property-read-uncached')
 
 
-def _band_state(ctx, asig, ratio_eff, who):
-    """Smoothed spectrum / frequencies of the object as the bandwidth function saw them, or None when outside the premise."""
-    with attach.paused():
-        s = np.asarray(asig.smooth_fa_spectrum, dtype=float)
-        f = np.asarray(asig.smooth_fa_frequencies, dtype=float)
-    if s.size == 0 or s.shape != f.shape or not np.all(np.isfinite(s)) or not (0 < ratio_eff < 1):
+def _check_band(ctx, who, asig, pre, ratio, ratio_eff, lo, hi, prefix):
+    if not _is_sig(asig):
         ctx.observe('out-of-domain:%s' % who)
-        return None
+        return
+    st = pre[id(asig)][1]
+    raw = _raw_sig(st, None, ratio=ratio, band_fn=who)
+    rec = _GEN.get(asig)
+    extra = []
+    if st['cached_s']:
+        s = st['sm']
+    elif rec is not None and rec['serial'] > st['serial']:
+        s = rec['result']                 # generated during this call: the monitored generation kept a copy
+        if not _same(np.asarray(asig._smooth_fa_spectrum), s):
+            extra.append('the smoothed spectrum after generating it')
+    else:
+        ctx.observe('band-oracle-fallback(unmonitored generation)')
+        s = np.asarray(asig._smooth_fa_spectrum)
+    _purity_sig(ctx, who, asig, st, not st['cached_s'], False, raw, extra=extra)
+    s = np.asarray(s, dtype=float)
+    f = np.asarray(st['tg'], dtype=float)
+    if s.size == 0 or s.shape != f.shape or not np.all(np.isfinite(s)) or not (0 <= ratio_eff < 1):
+        ctx.observe('out-of-domain:%s' % who)
+        return
     if not np.max(s) > 0:
         ctx.observe('all-zero-smoothed-spectrum:%s' % who)
-        return None
+        return
     if np.any(np.diff(f) < 0):
         ctx.observe('targets-not-ascending:%s' % who)
-        return None
-    first_ok, last_ok, peaks = O.band_limit_candidates(s.tolist(), ratio_eff)
-    return s, f, first_ok, last_ok, peaks
-
-
-def _check_band(ctx, who, asig, ratio, ratio_eff, lo, hi, prefix):
-    st = _band_state(ctx, asig, ratio_eff, who)
-    if st is None:
         return
-    s, f, first_ok, last_ok, peaks = st
-    raw = _signal_raw(asig, None)
-    raw.update({'ratio': ratio, 'band_fn': who})
+    first_ok, last_ok, peaks = O.band_limit_candidates(s.tolist(), ratio_eff)
     wit = lambda: _wit(who, raw, got=(lo, hi), ratio=ratio, smoothed=s, targets=f)
     fpk = [float(f[i]) for i in peaks]
+    if 0 in peaks or len(f) - 1 in peaks:
+        ctx.observe('bandwidth-peak-at-first-or-last-target')
     if prefix == 'sigrange':
         ok = (lo <= hi) and all(lo <= p <= hi for p in fpk)
         ctx.check(ok, 'sigrange.ordered+brackets-peak', wit,
@@ -358,19 +530,19 @@ def _ratio_of(args, kwargs, default):
 def _post_bw_freqs(args, kwargs, result, pre):
     asig = args[0] if args else kwargs['asig']
     r = _ratio_of(args, kwargs, 0.707)
-    _check_band(CTX, 'calc_bandwidth_freqs', asig, r, r, float(result[0]), float(result[1]), 'bandwidth')
+    _check_band(CTX, 'calc_bandwidth_freqs', asig, pre, r, r, float(result[0]), float(result[1]), 'bandwidth')
 
 
 def _post_bw_fmin(args, kwargs, result, pre):
     asig = args[0] if args else kwargs['asig']
     r = _ratio_of(args, kwargs, 0.707)
-    _check_band(CTX, 'calc_bandwidth_f_min', asig, r, r, float(result), None, 'bandwidth')
+    _check_band(CTX, 'calc_bandwidth_f_min', asig, pre, r, r, float(result), None, 'bandwidth')
 
 
 def _post_bw_fmax(args, kwargs, result, pre):
     asig = args[0] if args else kwargs['asig']
     r = _ratio_of(args, kwargs, 0.707)
-    _check_band(CTX, 'calc_bandwidth_f_max', asig, r, r, None, float(result), 'bandwidth')
+    _check_band(CTX, 'calc_bandwidth_f_max', asig, pre, r, r, None, float(result), 'bandwidth')
 
 
 def _post_sigrange(args, kwargs, result, pre):
@@ -382,10 +554,10 @@ def _post_sigrange(args, kwargs, result, pre):
         eff = -1.0
     res = np.asarray(result, dtype=float).ravel()
     if res.size != 2:
-        CTX.violation('sigrange.ordered+brackets-peak', _wit('get_sig_freq_range', _signal_raw(asig, None), got=res, ratio=r),
+        CTX.violation('sigrange.ordered+brackets-peak', _wit('get_sig_freq_range', None, got=res, ratio=r),
                       'get_sig_freq_range returned %d values' % res.size)
         return
-    _check_band(CTX, 'get_sig_freq_range', asig, r, eff, float(res[0]), float(res[1]), 'sigrange')
+    _check_band(CTX, 'get_sig_freq_range', asig, pre, r, eff, float(res[0]), float(res[1]), 'sigrange')
 
 
 def _wrap_property(cls, name, pre, post):
@@ -415,30 +587,74 @@ def install(ctx):
     CTX = ctx
     import eqsig
     fr = eqsig.fns.frequency
-    attach.wrap(fr, 'calc_smooth_fa_spectrum', _post_calc)
-    attach.wrap(fr, 'generate_smooth_fa_spectrum', _post_generate)
-    attach.wrap(fr, 'calc_smoothing_matrix_konno_1998', _post_matrix)
-    attach.wrap(fr, 'calc_smooth_fa_spectrum_w_custom_matrix', _post_custom)
-    attach.wrap(fr, 'get_sig_freq_range', _post_sigrange)
-    attach.wrap(eqsig.im, 'calc_bandwidth_freqs', _post_bw_freqs)
-    attach.wrap(eqsig.im, 'calc_bandwidth_f_min', _post_bw_fmin)
-    attach.wrap(eqsig.im, 'calc_bandwidth_f_max', _post_bw_fmax)
-    attach.wrap_method(eqsig.single.Signal, 'gen_smooth_fa_spectrum', _post_gen_smooth)
+    attach.wrap(fr, 'calc_smooth_fa_spectrum', _post_calc, pre=_pre_fn)
+    attach.wrap(fr, 'generate_smooth_fa_spectrum', _post_generate, pre=_pre_fn)
+    attach.wrap(fr, 'calc_smoothing_matrix_konno_1998', _post_matrix, pre=_pre_fn)
+    attach.wrap(fr, 'calc_smooth_fa_spectrum_w_custom_matrix', _post_custom, pre=_pre_fn)
+    attach.wrap(fr, 'get_sig_freq_range', _post_sigrange, pre=_pre_fn)
+    attach.wrap(eqsig.im, 'calc_bandwidth_freqs', _post_bw_freqs, pre=_pre_fn)
+    attach.wrap(eqsig.im, 'calc_bandwidth_f_min', _post_bw_fmin, pre=_pre_fn)
+    attach.wrap(eqsig.im, 'calc_bandwidth_f_max', _post_bw_fmax, pre=_pre_fn)
+    attach.wrap_method(eqsig.single.Signal, 'gen_smooth_fa_spectrum', _post_gen_smooth, pre=_pre_gen_smooth)
     _wrap_property(eqsig.single.Signal, 'smooth_fa_spectrum', _pre_prop, _post_prop)
 
 
-# ------------------------------------------------------------------------------------------------ workload
+# ------------------------------------------------------------------------------------------------ workload: generators
 BANDS = [5, 10, 20, 40, 100]
+POW2_NEIGHBOURS = [3, 4, 5, 7, 8, 9, 15, 16, 17, 31, 32, 33, 63, 64, 65, 127, 128, 129, 255, 256, 257, 511, 512, 513]
+INT_DTYPES = ['int64', 'int32', 'int16', 'int8', 'uint8', 'uint16']
+VIEWS = [None, None, None, None, 'stride2', 'reversed', 'readonly']
 
 
 def draw_band(rng):
+    """(band or None for the default, form)."""
     u = rng.random()
     if u < 0.12:
-        return None                                   # the default (40)
+        return None, 'py'
+    form = ['py', 'py', 'py', 'np64', 'npint', '0d'][int(rng.integers(6))]
     if u < 0.55:
         b = BANDS[int(rng.integers(len(BANDS)))]
-        return b if rng.random() < 0.5 else float(b)
-    return float(rng.uniform(5, 100))
+        return (b if rng.random() < 0.5 else float(b)), form
+    return float(rng.uniform(5, 100)), form
+
+
+def band_obj(band, form):
+    if band is None:
+        return None
+    if form == 'np64':
+        return np.float64(band)
+    if form == 'npint' and float(band) == int(band):
+        return np.int64(int(band))
+    if form == '0d':
+        return np.array(float(band))
+    return band
+
+
+def view_of(arr, v):
+    """Materialise the container / memory-layout form of one array argument (forms are part of the case)."""
+    if arr is None or v is None:
+        return arr
+    if v == 'stride2':
+        big = np.zeros(2 * len(arr), dtype=arr.dtype)
+        big[::2] = arr
+        return big[::2]
+    if v == 'reversed':
+        return arr[::-1].copy()[::-1]
+    if v == 'readonly':
+        a = arr.copy()
+        a.flags.writeable = False
+        return a
+    if v == 'list':
+        return arr.tolist()
+    if v == 'tuple':
+        return tuple(arr.tolist())
+    if v == 'scalar':
+        return arr.dtype.type(arr[0])
+    if v == 'fortran' and arr.ndim == 2:
+        return np.asfortranarray(arr)
+    if v == 'nested-list':
+        return arr.tolist()
+    return arr
 
 
 def fourier_grid(n, dt):
@@ -447,12 +663,42 @@ def fourier_grid(n, dt):
     return np.arange(points) / (n_factor * dt), n_factor
 
 
-def draw_targets(rng, fnz, allow_none=True, sort=None):
+def draw_dt(rng):
+    if rng.random() < 0.25:
+        return float(10 ** rng.uniform(-9, 3))
+    return gen.dt(rng)
+
+
+def draw_record(rng, n):
+    x, cls = gen.record(rng, n)
+    u = rng.random()
+    if u < 0.15:
+        x = x * float(10 ** rng.uniform(-12, 12))
+        cls += '*wide-scale'
+    elif u < 0.20:
+        x = 1e6 + 1e-3 * x / (np.max(np.abs(x)) or 1.0)
+        cls = 'offset1e6+' + cls
+    return x, cls
+
+
+def draw_n(rng):
+    u = rng.random()
+    if u < 0.55:
+        return int(rng.integers(3, 514))
+    return int(POW2_NEIGHBOURS[int(rng.integers(len(POW2_NEIGHBOURS)))])
+
+
+def draw_targets(rng, fnz, allow_none=True, sort=None, subrange=False):
     """(targets or None, kind). fnz: ascending positive grid."""
     if allow_none and rng.random() < 0.08:
         return None, 'default-grid'
     f1, fm = float(fnz[0]), float(fnz[-1])
     lo, hi = (np.log10(f1), np.log10(fm)) if fm > f1 else (np.log10(f1 / 2), np.log10(f1 * 2))
+    if subrange:
+        third = (hi - lo) / 3
+        lo, hi = (lo, lo + third) if rng.random() < 0.5 else (hi - third, hi)
+        t = np.sort(10 ** rng.uniform(lo, hi, size=int(rng.integers(3, 9))))
+        return t, 'sub-range'
     parts, kinds = [], []
     k_in = int(rng.integers(0, 9))
     if k_in:
@@ -460,7 +706,7 @@ def draw_targets(rng, fnz, allow_none=True, sort=None):
         kinds.append('in')
     k_on = int(rng.integers(0, 4))
     if k_on:
-        parts.append(np.asarray(fnz)[rng.integers(0, len(fnz), size=k_on)])
+        parts.append(np.asarray(fnz, dtype=float)[rng.integers(0, len(fnz), size=k_on)])
         kinds.append('on')
     if rng.random() < 0.45:
         parts.append(np.array([f1 / 3 if rng.random() < 0.2 else f1 / 3 * 10 ** rng.uniform(-2, 0)]))
@@ -469,7 +715,7 @@ def draw_targets(rng, fnz, allow_none=True, sort=None):
         parts.append(np.array([3 * fm if rng.random() < 0.2 else 3 * fm * 10 ** rng.uniform(0, 2)]))
         kinds.append('above')
     if not parts:
-        parts.append(np.asarray(fnz)[rng.integers(0, len(fnz), size=1)])
+        parts.append(np.asarray(fnz, dtype=float)[rng.integers(0, len(fnz), size=1)])
         kinds.append('on')
     t = np.concatenate(parts).astype(float)
     if sort is None:
@@ -488,22 +734,65 @@ def draw_alpha(rng):
     return float(rng.normal() * 10 ** rng.uniform(-3, 3)) or 1.5
 
 
-def gen_func_case(rng):
-    src = ['record', 'record', 'record', 'const', 'spike', 'decay', 'signed', 'complex', 'int', 'f32', 'loggrid'][int(rng.integers(11))]
-    if src == 'record':
-        n = int(rng.integers(4, 513)) if rng.random() < 0.7 else int(rng.choice([4, 5, 7, 8, 9, 16, 17, 33, 64, 512]))
+def int_spectrum(rng, points, dtype, with_min=False):
+    info = np.iinfo(dtype)
+    lo = info.min + (1 if info.min < 0 else 0)
+    hi = min(info.max, 2 ** 40)
+    lo = max(lo, -2 ** 40)
+    a = rng.integers(lo, hi, size=points, endpoint=True).astype(dtype)
+    a[int(rng.integers(points))] = info.max if info.max < 2 ** 40 else hi
+    if with_min:
+        a[int(rng.integers(1, points)) if points > 1 else 0] = info.min
+    return a
+
+
+SYNTH = ['const', 'spike', 'decay', 'max-first', 'max-last', 'plateau-ends', 'signed', 'complex', 'c64', 'f32', 'loggrid',
+         'int', 'int', 'int-small']
+
+
+def gen_func_case(rng, long_n=None):
+    src = 'record' if rng.random() < 0.3 else SYNTH[int(rng.integers(len(SYNTH)))]
+    probe = None
+    reject = None
+    grid_dtype = 'float64'
+    if long_n is not None:
+        # a long record past 2**16 samples: stored as a recipe, materialised deterministically by run_func_case
+        seed = int(rng.integers(1 << 30))
         dt = gen.dt(rng)
-        x, rcls = gen.record(rng, n)
+        case = {'kind': 'func', 'long': {'seed': seed, 'n': int(long_n), 'dt': dt}, 'freqs': None, 'spec': None,
+                'targets': None, 'with_zero': bool(rng.random() < 0.5), 'views': {}, 'band': draw_band(rng)[0], 'band_form': 'py',
+                'alpha': 2.0, 'const': 1.0, 'style': 'mixed', 'none_style': 'none'}
+        f, _ = fourier_grid(long_n, dt)
+        t = np.sort(np.concatenate([10 ** rng.uniform(np.log10(f[1]), np.log10(f[-1]), size=2), [f[int(rng.integers(1, len(f)))]]]))
+        case['targets'] = t
+        return case, 'func:long-record:%s:in+on' % ('zero-bin' if case['with_zero'] else 'no-zero-bin')
+    if src == 'record':
+        n = draw_n(rng)
+        if rng.random() < 0.03:
+            n = int(rng.choice([1, 2]))
+        dt = draw_dt(rng)
+        x, rcls = draw_record(rng, n)
         freqs, n_factor = fourier_grid(n, dt)
         spec = np.fft.fft(x, n=n_factor)[:len(freqs)] * dt
         src = 'record-' + rcls
+        if n < 3:
+            reject = 'record-of-%d-sample(s): no non-zero-frequency bin' % n
     else:
         points = int(rng.choice([2, 3, 4, 5, 8, 16, 33, 64, 100, 128, 256])) if rng.random() < 0.6 else int(rng.integers(2, 257))
+        u = rng.random()
         if src == 'loggrid':
             freqs = np.concatenate([[0.0], np.sort(10 ** rng.uniform(-2, 2, size=points - 1))])
+        elif u < 0.12:
+            grid_dtype = ['int64', 'int32', 'int16', 'uint8', 'uint16'][int(rng.integers(5))]
+            freqs = np.arange(points).astype(grid_dtype)
         else:
-            freqs = np.arange(points) * float(10 ** rng.uniform(-2.5, 0.5))
-        amp = float(10 ** rng.uniform(-4, 4)) if rng.random() < 0.5 else 1.0
+            df = float(10 ** rng.uniform(-6, 9)) if u < 0.35 else float(10 ** rng.uniform(-2.5, 0.5))
+            freqs = np.arange(points) * df
+            if u > 0.92:
+                grid_dtype = 'float32'
+                freqs = freqs.astype(np.float32)
+        amp = float(10 ** rng.uniform(-12, 12)) if rng.random() < 0.4 else 1.0
+        ff = np.asarray(freqs, dtype=float)
         if src == 'const':
             spec = np.full(points, float(rng.choice([0.5, 1.0, 3.0, 7.25])) * amp)
         elif src == 'spike':
@@ -512,53 +801,252 @@ def gen_func_case(rng):
             if rng.random() < 0.5:
                 spec += 1e-3 * amp
         elif src == 'decay':
-            spec = amp / (1.0 + freqs) ** rng.uniform(0.5, 3)
+            spec = amp / (1.0 + ff / (ff[1] if points > 1 else 1.0)) ** rng.uniform(0.5, 3)
+        elif src == 'max-first':
+            spec = np.abs(rng.normal(size=points)) * amp
+            spec[1 if points > 1 else 0] = 10 * amp
+        elif src == 'max-last':
+            spec = np.abs(rng.normal(size=points)) * amp
+            spec[-1] = 10 * amp
+        elif src == 'plateau-ends':
+            spec = np.abs(rng.normal(size=points)) * amp
+            k = max(1, points // 4)
+            spec[:k + 1] = spec[k]
+            spec[-k:] = spec[-k]
         elif src == 'signed':
             spec = rng.normal(size=points) * amp
         elif src == 'complex':
             spec = (rng.normal(size=points) + 1j * rng.normal(size=points)) * amp
-        elif src == 'int':
-            spec = rng.integers(-9, 10, size=points).astype(np.int64)
+        elif src == 'c64':
+            spec = ((rng.normal(size=points) + 1j * rng.normal(size=points)) * min(max(amp, 1e-12), 1e12)).astype(np.complex64)
         elif src == 'f32':
-            spec = (rng.normal(size=points) * amp).astype(np.float32)
+            spec = (rng.normal(size=points) * min(max(amp, 1e-12), 1e12)).astype(np.float32)
+        elif src == 'int':
+            dtn = INT_DTYPES[int(rng.integers(len(INT_DTYPES)))]
+            with_min = dtn.startswith('int') and rng.random() < 0.08
+            spec = int_spectrum(rng, points, np.dtype(dtn), with_min)
+            src = 'int:' + dtn
+            if with_min:
+                probe = 'int-min'
+        elif src == 'int-small':
+            spec = rng.integers(-9, 10, size=points).astype(np.int64)
         else:
             spec = np.abs(rng.normal(size=points)) * amp
     with_zero = bool(rng.random() < 0.5)
-    if not with_zero:
-        freqs, spec = freqs[1:], spec[1:]
-    fnz = freqs[1:] if with_zero else freqs
-    targets, tkind = draw_targets(rng, fnz)
-    case = {'kind': 'func', 'freqs': freqs, 'spec': spec, 'targets': targets, 'band': draw_band(rng),
-            'alpha': draw_alpha(rng), 'const': float(rng.choice([1.0, 0.3, 2.5e-7, 123456.789, -4.0])),
-            'none_style': 'omit' if rng.random() < 0.5 else 'none', 'kw_style': bool(rng.random() < 0.5)}
-    return case, 'func:%s:%s:%s' % (src, 'zero-bin' if with_zero else 'no-zero-bin', tkind)
+    if reject is None:
+        if not with_zero:
+            freqs, spec = freqs[1:], spec[1:]
+        fnz = np.asarray(freqs[1:] if with_zero else freqs, dtype=float)
+        targets, tkind = draw_targets(rng, fnz)
+    else:
+        targets, tkind = np.array([1.0, 2.0]), 'any'
+    views = {'freqs': VIEWS[int(rng.integers(len(VIEWS)))], 'spec': VIEWS[int(rng.integers(len(VIEWS)))],
+             'targets': VIEWS[int(rng.integers(len(VIEWS)))]}
+    u = rng.random()
+    if targets is not None and reject is None:
+        if u < 0.06 and grid_dtype == 'float32':
+            targets = targets.astype(np.float32)
+            tkind += ':f32'
+        elif u < 0.10:
+            targets = targets.astype(np.float32)
+            tkind += ':f32'
+        elif u < 0.16 and grid_dtype not in ('float64', 'float32'):
+            targets = np.unique(np.clip(np.round(targets), 1, np.iinfo(grid_dtype).max)).astype(grid_dtype)
+            tkind += ':' + grid_dtype
+        elif u < 0.20 and not with_zero:
+            targets, views['targets'], tkind = None, 'same-as-freqs', 'same-object-as-freqs'
+        elif u < 0.23 and not with_zero and probe is None:
+            views['spec'] = 'spec-is-freqs'
+    u = rng.random()
+    if reject is None and probe is None and u < 0.05:
+        which = ['freqs', 'spec', 'targets'][int(rng.integers(3))]
+        if which != 'targets' or (targets is not None):
+            views[which] = ['list', 'tuple', 'scalar'][int(rng.integers(3))] if which == 'targets' else ['list', 'tuple'][int(rng.integers(2))]
+            reject = '%s-as-%s' % (which, views[which])
+    band, bform = draw_band(rng)
+    if rng.random() < 0.02:
+        band = float(rng.choice([0.0, 1.0, 200.0]))          # outside the quantifier: counted by the monitor, not judged
+    case = {'kind': 'func', 'freqs': freqs, 'spec': spec, 'targets': targets, 'views': views, 'band': band, 'band_form': bform,
+            'alpha': draw_alpha(rng), 'const': float(rng.choice([1.0, 0.3, 2.5e-7, 123456.789, -4.0, 1e-12, 1e12])),
+            'none_style': 'omit' if rng.random() < 0.5 else 'none', 'style': ['pos', 'kw', 'mixed'][int(rng.integers(3))],
+            'probe': probe, 'reject': reject}
+    return case, 'func:%s:%s:%s:%s' % (src, grid_dtype, 'zero-bin' if with_zero else 'no-zero-bin', tkind)
 
 
-def gen_signal_case(rng):
-    n = int(rng.integers(4, 513)) if rng.random() < 0.75 else int(rng.choice([4, 5, 8, 9, 16, 17, 64, 65, 512]))
-    dt = gen.dt(rng)
-    x, rcls = gen.record(rng, n)
-    grid, _ = fourier_grid(n, dt)
-    how = ['default', 'ctor', 'setter', 'setter_frequencies', 'range', 'gen_arg'][int(rng.integers(6))]
+VALUE_FORMS = [None, None, None, None, 'list', 'tuple', 'intlist', 'f32', 'i64', 'i16', 'u8', 'readonly', 'stride2']
+
+
+def values_in_form(x, form):
+    """The record in the container / dtype form of the case (integer forms use a rounded, rescaled copy)."""
+    if form in (None, 'readonly', 'stride2'):
+        return view_of(np.asarray(x, dtype=float), form)
+    if form == 'list':
+        return [float(v) for v in x]
+    if form == 'tuple':
+        return tuple(float(v) for v in x)
+    if form == 'f32':
+        return np.asarray(x, dtype=np.float32)
+    m = float(np.max(np.abs(x))) or 1.0
+    if form == 'intlist':
+        return [int(v) for v in np.round(np.asarray(x) / m * 1000)]
+    if form == 'i64':
+        return np.round(np.asarray(x) / m * 2 ** 40).astype(np.int64)
+    if form == 'i16':
+        return np.round(np.asarray(x) / m * 32767).astype(np.int16)
+    if form == 'u8':
+        return np.round((np.asarray(x) / m + 1) * 127.5).astype(np.uint8)
+    return np.asarray(x, dtype=float)
+
+
+def draw_ratio(rng):
+    u = rng.random()
+    if u < 0.25:
+        return None
+    if u < 0.40:
+        return float(rng.choice([0.0, 1e-12, 0.999999]))
+    return float(rng.choice([0.5, 0.9, 0.25, float(rng.uniform(0.05, 0.98))]))
+
+
+def draw_sig_ratio(rng):
+    u = rng.random()
+    if u < 0.25:
+        return None
+    if u < 0.35:
+        return float(rng.choice([1.0 + 1e-9, 1e12]))
+    return float(rng.choice([2.0, 4.0, 100.0, float(rng.uniform(1.2, 50))]))
+
+
+def draw_target_form(rng):
+    return [None, None, 'list', 'tuple', 'intlist', 'f32', 'i64', 'readonly', 'stride2', 'reversed'][int(rng.integers(10))]
+
+
+def targets_in_form(t, form):
+    if t is None:
+        return None
+    if form == 'intlist':
+        return sorted(set(int(v) for v in np.maximum(1, np.round(t))))
+    if form == 'i64':
+        return np.unique(np.maximum(1, np.round(t))).astype(np.int64)
+    if form == 'f32':
+        return np.asarray(t, dtype=np.float32)
+    return view_of(np.asarray(t, dtype=float), form)
+
+
+def gen_signal_case(rng, long_n=None):
+    n = draw_n(rng) if long_n is None else int(long_n)
+    if long_n is None and rng.random() < 0.03:
+        n = int(rng.choice([1, 2]))
+    dt = draw_dt(rng) if long_n is None else gen.dt(rng)
+    if long_n is None:
+        x, rcls = draw_record(rng, n)
+    else:
+        x, rcls = None, 'long-record'
+    grid, _ = fourier_grid(max(n, 3), dt)
+    how = ['default', 'ctor', 'setter', 'setter_frequencies', 'range', 'gen_arg', 'by_range'][int(rng.integers(7))]
+    if long_n is not None:
+        how = 'ctor'
     targets, rng_lim, tkind = None, None, 'default-logspace'
-    if how == 'range':
+    if how in ('range', 'by_range'):
         lo = float(10 ** rng.uniform(-2, 0.5))
         rng_lim = (lo, lo * float(10 ** rng.uniform(0.3, 2.5)))
         tkind = 'range'
     elif how != 'default':
-        targets, tkind = draw_targets(rng, grid[1:], allow_none=False, sort=True)
+        targets, tkind = draw_targets(rng, grid[1:], allow_none=False, sort=True, subrange=rng.random() < 0.2)
+        if long_n is not None:
+            targets = targets[:3] if len(targets) >= 3 else targets
     case = {'kind': 'signal', 'cls': 'AccSignal' if rng.random() < 0.5 else 'Signal', 'values': x, 'dt': dt, 'how': how,
-            'targets': targets, 'range': rng_lim, 'band': draw_band(rng),
-            'ratio': None if rng.random() < 0.3 else float(rng.choice([0.5, 0.9, 0.25, float(rng.uniform(0.05, 0.98))])),
-            'sig_ratio': None if rng.random() < 0.3 else float(rng.choice([2.0, 4.0, 100.0, float(rng.uniform(1.2, 50))])),
-            'random_matrix_seed': int(rng.integers(1 << 30)) if rng.random() < 0.3 else None}
+            'values_form': VALUE_FORMS[int(rng.integers(len(VALUE_FORMS)))] if long_n is None else None,
+            'targets': targets, 'targets_form': draw_target_form(rng) if how != 'gen_arg' else [None, 'readonly', 'stride2'][int(rng.integers(3))],
+            'range': rng_lim, 'range_form': ['tuple', 'list', 'array'][int(rng.integers(3))], 'n_points': int(rng.choice([1, 2, 7, 30, 50])),
+            'band': draw_band(rng)[0], 'band_form': ['py', 'np64', '0d'][int(rng.integers(3))],
+            'ratio': draw_ratio(rng), 'sig_ratio': draw_sig_ratio(rng), 'style': ['pos', 'kw'][int(rng.integers(2))],
+            'matrix_form': [None, None, 'f32', 'fortran', 'readonly', 'nested-list'][int(rng.integers(6))],
+            'random_matrix_seed': int(rng.integers(1 << 30)) if rng.random() < 0.3 else None,
+            'second_seed': int(rng.integers(1 << 30)), 'reject_probes': bool(rng.random() < 0.1)}
+    if long_n is not None:
+        case['long'] = {'seed': int(rng.integers(1 << 30)), 'n': int(long_n)}
+        case['random_matrix_seed'] = None
+        case['matrix_form'] = None
     return case, 'signal:%s:%s:%s' % (rcls, how, tkind)
 
 
+HIST_OPS = ['read', 'read', 'gen', 'gen', 'generate', 'set', 'set', 'by_range', 'dep_range', 'dep_points', 'reset', 'reset',
+            'add_constant', 'add_series', 'remove_average', 'remove_poly', 'butter', 'gen_fa', 'clear_cache', 'bw', 'bw',
+            'custom', 'calc_on_own', 'twin']
+
+
+def gen_history_case(rng):
+    n = draw_n(rng)
+    dt = gen.dt(rng) if rng.random() < 0.8 else draw_dt(rng)
+    x, rcls = draw_record(rng, n)
+    grid, _ = fourier_grid(n, dt)
+    ops = []
+    for _ in range(int(rng.integers(6, 15))):
+        name = HIST_OPS[int(rng.integers(len(HIST_OPS)))]
+        op = {'op': name}
+        if name in ('gen', 'generate'):
+            op['band'], op['band_form'] = draw_band(rng)
+            op['style'] = ['pos', 'kw'][int(rng.integers(2))]
+            if name == 'gen' and rng.random() < 0.5:
+                op['targets'] = draw_targets(rng, grid[1:], allow_none=False, sort=rng.random() < 0.8)[0]
+                op['form'] = [None, 'readonly', 'stride2', 'reversed'][int(rng.integers(4))]
+        elif name == 'set':
+            op['via'] = ['smooth_fa_freqs', 'smooth_fa_frequencies'][int(rng.integers(2))]
+            if rng.random() < 0.15:
+                op['form'] = 'fa_view'                    # a view of the object's own cached frequency array
+                op['step'] = int(rng.integers(1, 4))
+            else:
+                op['targets'] = draw_targets(rng, grid[1:], allow_none=False, sort=rng.random() < 0.8)[0]
+                op['form'] = draw_target_form(rng)
+        elif name in ('by_range', 'dep_range'):
+            lo = float(10 ** rng.uniform(-2, 0.5))
+            op['limits'] = (lo, lo * float(10 ** rng.uniform(0.3, 2.5)))
+            op['n_points'] = int(rng.choice([1, 2, 7, 30]))
+            op['form'] = ['tuple', 'list', 'array'][int(rng.integers(3))]
+        elif name == 'dep_points':
+            op['value'] = int(rng.choice([2, 5, 31]))
+        elif name == 'reset':
+            m = [n, max(3, n // 2), n + int(rng.integers(1, 40)), int(POW2_NEIGHBOURS[int(rng.integers(len(POW2_NEIGHBOURS)))])][int(rng.integers(4))]
+            op['values'] = draw_record(rng, m)[0]
+            op['form'] = VALUE_FORMS[int(rng.integers(len(VALUE_FORMS)))]
+        elif name == 'add_constant':
+            op['c'] = float(rng.normal() * 10 ** rng.uniform(-3, 3))
+        elif name == 'add_series':
+            op['seed'] = int(rng.integers(1 << 30))
+        elif name == 'remove_poly':
+            op['deg'] = int(rng.integers(0, 3))
+        elif name == 'butter':
+            lo = float(rng.uniform(0.02, 0.3))
+            op['cut'] = (lo, float(rng.uniform(lo * 1.5, 0.9)))        # fractions of the Nyquist frequency
+        elif name == 'gen_fa':
+            op['p2_plus'] = int(rng.integers(0, 3))
+            op['n'] = None if rng.random() < 0.6 else 2 * int(rng.integers(n // 2 + 1, n + 20))
+        elif name == 'bw':
+            op['fn'] = ['freqs', 'f_min', 'f_max', 'sigrange'][int(rng.integers(4))]
+            op['ratio'] = draw_sig_ratio(rng) if op['fn'] == 'sigrange' else draw_ratio(rng)
+            op['style'] = ['pos', 'kw', 'allkw'][int(rng.integers(3))]
+        elif name == 'custom':
+            op['seed'] = None if rng.random() < 0.6 else int(rng.integers(1 << 30))
+            op['form'] = [None, 'f32', 'fortran', 'readonly', 'nested-list'][int(rng.integers(5))]
+            op['style'] = ['pos', 'kw'][int(rng.integers(2))]
+        elif name == 'twin':
+            op['how'] = ['ctor-from-values', 'reset-from-values', 'same-caller-array'][int(rng.integers(3))]
+            op['switch'] = bool(rng.random() < 0.5)
+        ops.append(op)
+    case = {'kind': 'history', 'cls': 'AccSignal' if rng.random() < 0.5 else 'Signal', 'values': x, 'dt': dt,
+            'values_form': VALUE_FORMS[int(rng.integers(len(VALUE_FORMS)))], 'ops': ops}
+    return case, 'history:%s' % rcls
+
+
+# ------------------------------------------------------------------------------------------------ workload: drivers
 def _nontrivial(case):
+    if case.get('long'):
+        return True
     if case['kind'] == 'func':
-        f, a = O.drop_zero_bin(case['freqs'], case['spec'])
-        return len(set(np.abs(a).tolist())) > 1
+        if case.get('reject') and len(case['freqs']) < 2:
+            return False
+        f, a = O.drop_zero_bin(np.asarray(case['freqs'], dtype=float), np.asarray(case['spec']))
+        return len(set(np.abs(a.astype(complex) if a.dtype.kind in 'iu' else a).tolist())) > 1
     return len(set(np.abs(np.asarray(case['values'])).tolist())) > 1
 
 
@@ -571,96 +1059,298 @@ def _call(ctx, clause, at, fn, *a, **k):
         return False, None
 
 
+def _probe_rejected(ctx, what, fn, *a, **k):
+    """A form the library is expected to reject: counted either way; if it is accepted the monitors judge the call."""
+    try:
+        fn(*a, **k)
+        ctx.observe('accepted-form:%s' % what)
+        return True
+    except (TypeError, IndexError, ValueError, AttributeError) as e:
+        ctx.observe('rejected-form:%s (%s)' % (what, type(e).__name__))
+        return False
+
+
+def _prec_rtol(fdtype, tdtype, sdtype):
+    if np.result_type(fdtype, tdtype) == np.dtype(np.float32):
+        return RTOL_F32
+    if np.dtype(sdtype) == np.dtype(np.complex64):
+        return 1e-6
+    return RTOL
+
+
 def run_func_case(eqsig, ctx, c):
-    freqs, spec, targets, band = c['freqs'], c['spec'], c['targets'], c['band']
-    bkw = {} if band is None else {'band': band}
-    b_eff = 40 if band is None else band
+    lng = c.get('long')
+    if lng:
+        x = np.random.default_rng(lng['seed']).normal(size=lng['n']) * np.exp(-np.arange(lng['n']) / (lng['n'] / 3.0))
+        base_f, n_factor = fourier_grid(lng['n'], lng['dt'])
+        base_s = np.fft.fft(x, n=n_factor)[:len(base_f)] * lng['dt']
+        if not c.get('with_zero'):
+            base_f, base_s = base_f[1:], base_s[1:]
+    else:
+        base_f, base_s = np.asarray(c['freqs']), np.asarray(c['spec'])
+    views = c.get('views') or {}
+    freqs = view_of(base_f, views.get('freqs'))
+    spec = freqs if views.get('spec') == 'spec-is-freqs' else view_of(base_s, views.get('spec'))
+    targets = freqs if views.get('targets') == 'same-as-freqs' else view_of(c['targets'], views.get('targets'))
+    band = band_obj(c['band'], c.get('band_form', 'py'))
+    style = c.get('style', 'mixed')
+    omit = targets is None and c.get('none_style', 'omit') == 'omit'
+    master = [_snap(freqs), _snap(spec), _snap(targets)]
+
+    def direct_args(sp):
+        if omit:
+            return ((freqs, sp), {} if band is None else {'band': band})
+        if style == 'kw':
+            k = {'fa_frequencies': freqs, 'fa_spectrum': sp, 'smooth_fa_frequencies': targets}
+            if band is not None:
+                k['band'] = band
+            return ((), k)
+        if style == 'pos' and band is not None:
+            return ((freqs, sp, targets, band), {})
+        return ((freqs, sp, targets), {} if band is None else {'band': band})
 
     def direct(sp):
-        if targets is None and c.get('none_style', 'omit') == 'omit':
-            return _call(ctx, 'smooth==weighted-mean', 'calc_smooth_fa_spectrum', eqsig.calc_smooth_fa_spectrum, freqs, sp, **bkw)
-        if c.get('kw_style'):
-            return _call(ctx, 'smooth==weighted-mean', 'calc_smooth_fa_spectrum', eqsig.calc_smooth_fa_spectrum,
-                         fa_frequencies=freqs, fa_spectrum=sp, smooth_fa_frequencies=targets, **bkw)
-        return _call(ctx, 'smooth==weighted-mean', 'calc_smooth_fa_spectrum', eqsig.calc_smooth_fa_spectrum, freqs, sp, targets, **bkw)
+        a, k = direct_args(sp)
+        return _call(ctx, 'smooth==weighted-mean', 'calc_smooth_fa_spectrum', eqsig.calc_smooth_fa_spectrum, *a, **k)
 
-    ok, base = direct(spec)
+    if c.get('reject'):
+        a, k = direct_args(spec)
+        _probe_rejected(ctx, c['reject'], eqsig.calc_smooth_fa_spectrum, *a, **k)
+        if not c['reject'].startswith('spec') and (isinstance(freqs, np.ndarray) or isinstance(targets, np.ndarray)):
+            _probe_rejected(ctx, c['reject'] + ':matrix', eqsig.calc_smoothing_matrix_konno_1998, freqs, targets)
+        return
+    if c.get('probe') == 'int-min':
+        with attach.paused():
+            try:
+                a, k = direct_args(spec)
+                r = np.asarray(eqsig.calc_smooth_fa_spectrum(*a, **k))
+                fnz, anz = O.drop_zero_bin(np.asarray(base_f, dtype=float), np.asarray(base_s).astype(np.int64))
+                tg = fnz if targets is None else np.asarray(targets, dtype=float)
+                b = 40 if band is None else float(band)
+                ok = 5 <= b <= 100 and tol.close(r, _reference(fnz, anz, tg, b), scale=_scale(anz), rtol=RTOL)
+                ctx.observe('probe:int-min-amplitude:%s' % ('matches the weighted mean of |A|' if ok else
+                                                            'differs (abs() overflows in the narrow signed dtype)'))
+            except Exception as e:      # noqa
+                ctx.observe('probe:int-min-amplitude:raised %s' % type(e).__name__)
+        return
+    ok, held = direct(spec)
     if not ok:
         return
-    base = np.array(base, copy=True)
-    fnz, anz = O.drop_zero_bin(freqs, spec)
-    mags = np.abs(anz)
+    base = np.array(held, copy=True)
+    sarr = np.asarray(spec)
+    fnz, anz = O.drop_zero_bin(np.asarray(freqs, dtype=float), sarr.astype(np.int64) if sarr.dtype.kind == 'i' else sarr)
+    mags = np.abs(anz).astype(float)
     scale = float(mags.max()) if mags.size else 0.0
+    rt = _prec_rtol(np.asarray(freqs).dtype, np.asarray(freqs if targets is None else targets).dtype, sarr.dtype)
+    bkw = {} if band is None else {'band': band}
     # deprecated alias
     if targets is not None:
-        ok, r = _call(ctx, 'alias.generate==weighted-mean', 'generate_smooth_fa_spectrum', eqsig.generate_smooth_fa_spectrum,
-                      targets, freqs, spec, **bkw)
+        if style == 'kw':
+            ok, r = _call(ctx, 'alias.generate==weighted-mean', 'generate_smooth_fa_spectrum', eqsig.generate_smooth_fa_spectrum,
+                          smooth_fa_frequencies=targets, fa_frequencies=freqs, fa_spectrum=spec, **bkw)
+        elif style == 'pos' and band is not None:
+            ok, r = _call(ctx, 'alias.generate==weighted-mean', 'generate_smooth_fa_spectrum', eqsig.generate_smooth_fa_spectrum,
+                          targets, freqs, spec, band)
+        else:
+            ok, r = _call(ctx, 'alias.generate==weighted-mean', 'generate_smooth_fa_spectrum', eqsig.generate_smooth_fa_spectrum,
+                          targets, freqs, spec, **bkw)
         if ok:
             ctx.check(np.array_equal(np.asarray(r), base), 'relation.alias==direct', lambda: _wit('relation.alias', got=np.asarray(r), direct=base),
                       'generate_smooth_fa_spectrum differs from calc_smooth_fa_spectrum on the same inputs')
+    # a different input of the same shape processed while the first result is held
+    if sarr.dtype.kind in 'fc':
+        other = (sarr[::-1] * sarr.dtype.type(1.5)).copy()
+    else:
+        other = sarr[::-1].copy()
+    ok, _r2 = direct(other)
+    if ok:
+        ctx.check(np.asarray(held).tobytes() == base.tobytes(), 'state.held-result-unchanged',
+                  lambda: _wit('state.held-result', first=base, now=np.asarray(held)),
+                  'the result of the first call changed while a second input of the same shape was processed')
     # matrix form
-    if targets is None and c.get('none_style', 'omit') == 'omit':
+    if omit:
         ok, m = _call(ctx, 'matrix==window/sum', 'calc_smoothing_matrix_konno_1998', eqsig.calc_smoothing_matrix_konno_1998, freqs, **bkw)
+    elif style == 'kw':
+        ok, m = _call(ctx, 'matrix==window/sum', 'calc_smoothing_matrix_konno_1998', eqsig.calc_smoothing_matrix_konno_1998,
+                      fa_frequencies=freqs, smooth_fa_frequencies=targets, **bkw)
+    elif style == 'pos' and band is not None:
+        ok, m = _call(ctx, 'matrix==window/sum', 'calc_smoothing_matrix_konno_1998', eqsig.calc_smoothing_matrix_konno_1998, freqs, targets, band)
     else:
         ok, m = _call(ctx, 'matrix==window/sum', 'calc_smoothing_matrix_konno_1998', eqsig.calc_smoothing_matrix_konno_1998, freqs, targets, **bkw)
     if ok:
+        m_held = m
         m = np.asarray(m)
+        m_copy = np.array(m, copy=True)
         if m.ndim == 2 and m.shape[0] == len(mags):
-            via = np.dot(mags.astype(float), m)
-            ctx.check(tol.close(via, base, scale=scale, rtol=RTOL), 'relation.matrix-form==direct-form',
+            via = np.dot(mags, m)
+            ctx.check(tol.close(via, base, scale=scale, rtol=rt), 'relation.matrix-form==direct-form',
                       lambda: _wit('relation.matrix-form', via_matrix=via, direct=base),
-                      '|A|.M differs from the direct form: %s' % tol.describe(via, base, scale=scale, rtol=RTOL))
+                      '|A|.M differs from the direct form: %s' % tol.describe(via, base, scale=scale, rtol=rt))
         else:
             ctx.violation('relation.matrix-form==direct-form', _wit('relation.matrix-form', shape=list(m.shape)),
                           'matrix shape %s does not fit %d amplitudes' % (m.shape, len(mags)))
+        if targets is not None and np.asarray(targets).dtype.kind == 'f' and not lng:
+            t2 = np.asarray(targets) * np.asarray(targets).dtype.type(1.0625)
+            ok2, _m2 = _call(ctx, 'matrix==window/sum', 'calc_smoothing_matrix_konno_1998', eqsig.calc_smoothing_matrix_konno_1998, freqs, t2, **bkw)
+            if ok2:
+                ctx.check(np.asarray(m_held).tobytes() == m_copy.tobytes(), 'state.held-result-unchanged',
+                          lambda: _wit('state.held-matrix', first=m_copy, now=np.asarray(m_held)),
+                          'the first smoothing matrix changed while a second one of the same shape was computed')
     # scaling
     alpha = c.get('alpha')
-    if alpha is not None and spec.dtype.kind in 'fc':
+    if alpha is not None and sarr.dtype.kind in 'fc':
         # scale in double precision: float32 * alpha would round the *input* of the second execution
-        ok, r = direct(spec.astype(np.complex128 if spec.dtype.kind == 'c' else np.float64) * alpha)
+        wide = sarr.astype(np.complex128 if sarr.dtype.kind == 'c' else np.float64)
+        need_base = sarr.dtype in (np.dtype(np.complex64), np.dtype(np.float32))
+        ok, r = direct(wide * alpha)
+        if ok and need_base:
+            okb, wb = direct(wide)            # the double-precision twin of a complex64 spectrum is its own baseline
+            ok, ref_base = okb, (np.array(wb, copy=True) if okb else None)
+        else:
+            ref_base = base
         if ok:
             r = np.asarray(r)
-            exp = abs(alpha) * base
+            exp = abs(alpha) * ref_base
             ctx.check(tol.close(r, exp, scale=abs(alpha) * scale, rtol=1e-12), 'relation.scaling',
                       lambda: _wit('relation.scaling', got=r, expected=exp, alpha=alpha),
                       'smoothing of alpha*A (alpha=%r) is not |alpha| * smoothing of A: %s'
                       % (alpha, tol.describe(r, exp, scale=abs(alpha) * scale, rtol=1e-12)))
             mant = np.frexp(abs(alpha))[0]
             tiny = mags[mags > 0].min() if np.any(mags > 0) else 1.0
-            if mant == 0.5 and spec.dtype == np.float64 and tiny * min(abs(alpha), 1.0) > 1e-280 and scale * max(abs(alpha), 1.0) < 1e280:
+            if mant == 0.5 and sarr.dtype == np.float64 and tiny * min(abs(alpha), 1.0) > 1e-280 and scale * max(abs(alpha), 1.0) < 1e280:
                 ctx.check(np.array_equal(r, exp), 'relation.scaling-pow2-exact',
                           lambda: _wit('relation.scaling-pow2', got=r, expected=exp, alpha=alpha),
                           'power-of-two scaling (alpha=%r) is not exact' % alpha)
     # constant spectrum
     cv = c.get('const')
     if cv is not None:
-        ok, r = direct(np.full(len(freqs), cv))
+        ok, r = direct(np.full(len(np.asarray(freqs)), cv))
         if ok:
             r = np.asarray(r)
             exp = np.full(r.shape, abs(cv))
-            ctx.check(tol.close(r, exp, scale=abs(cv), rtol=1e-12), 'relation.constant-reproduced',
+            crt = 2e-5 if rt == RTOL_F32 else 1e-12
+            ctx.check(tol.close(r, exp, scale=abs(cv), rtol=crt), 'relation.constant-reproduced',
                       lambda: _wit('relation.constant', got=r, const=cv),
-                      'constant spectrum %r not reproduced: %s' % (cv, tol.describe(r, exp, scale=abs(cv), rtol=1e-12)))
+                      'constant spectrum %r not reproduced: %s' % (cv, tol.describe(r, exp, scale=abs(cv), rtol=crt)))
+    # the arguments of the whole case are still what they were before the first call
+    now = [freqs, spec, targets]
+    bad = [n for n, a, s in zip(('freqs', 'spec', 'targets'), now, master) if not _same(a, s)]
+    ctx.check(not bad, 'purity.arguments-unchanged', lambda: _wit('case-level purity', changed=bad),
+              'arguments %s differ from their values before the first call of the case' % bad)
+
+
+def _limits(lim, form):
+    if form == 'list':
+        return [lim[0], lim[1]]
+    if form == 'array':
+        return np.array([lim[0], lim[1]])
+    return (lim[0], lim[1])
+
+
+def _konno_custom(eqsig, ctx, s, b_eff, form, style, v_ref, scale, rt):
+    """custom-matrix form with the Konno matrix of the object's own grid; relation to the object form."""
+    ok, m = _call(ctx, 'matrix==window/sum', 'calc_smoothing_matrix_konno_1998', eqsig.calc_smoothing_matrix_konno_1998,
+                  s.fa_freqs, s.smooth_fa_freqs, band=b_eff)
+    if not ok:
+        return
+    m = np.asarray(m)
+    if form == 'f32':
+        m = m.astype(np.float32)
+    else:
+        m = view_of(m, form)
+    if style == 'kw':
+        ok, r = _call(ctx, 'custom-matrix==sum|A_i|M_ij(i>=1)', 'calc_smooth_fa_spectrum_w_custom_matrix',
+                      eqsig.calc_smooth_fa_spectrum_w_custom_matrix, asig=s, smooth_matrix=m)
+    else:
+        ok, r = _call(ctx, 'custom-matrix==sum|A_i|M_ij(i>=1)', 'calc_smooth_fa_spectrum_w_custom_matrix',
+                      eqsig.calc_smooth_fa_spectrum_w_custom_matrix, s, m)
+    if ok and v_ref is not None:
+        r = np.asarray(r)
+        rr = max(rt, 1e-5) if form == 'f32' else rt
+        ctx.check(tol.close(r, v_ref, scale=scale, rtol=rr), 'relation.custom-matrix(konno)==object-form',
+                  lambda: _wit('relation.custom-matrix', got=r, object_form=v_ref),
+                  'custom-matrix form with the Konno matrix differs from Signal.smooth_fa_spectrum: %s'
+                  % tol.describe(r, v_ref, scale=scale, rtol=rr))
+
+
+def _bandwidth_calls(eqsig, ctx, s, ratio, sig_ratio, style, fns=('freqs', 'f_min', 'f_max', 'sigrange')):
+    table = {'freqs': ('calc_bandwidth_freqs', eqsig.im.calc_bandwidth_freqs), 'f_min': ('calc_bandwidth_f_min', eqsig.im.calc_bandwidth_f_min),
+             'f_max': ('calc_bandwidth_f_max', eqsig.im.calc_bandwidth_f_max), 'sigrange': ('get_sig_freq_range', eqsig.get_sig_freq_range)}
+    for key in fns:
+        name, fn = table[key]
+        r = sig_ratio if key == 'sigrange' else ratio
+        clause = 'sigrange==first/last above max/ratio' if key == 'sigrange' else 'bandwidth==first/last above ratio*max'
+        if r is None:
+            a, k = ((s,), {}) if style != 'allkw' else ((), {'asig': s})
+        elif style == 'pos':
+            a, k = (s, r), {}
+        elif style == 'allkw':
+            a, k = (), {'asig': s, 'ratio': r}
+        else:
+            a, k = (s,), {'ratio': r}
+        _call(ctx, clause, name, fn, *a, **k)
+
+
+def _smooth_ok_for_bandwidth(ctx, s):
+    """Premise of the bandwidth functions (a smoothed spectrum that is finite and not identically zero), decided from a
+    snapshot of the object without reading - and thereby generating - anything on it."""
+    st = _sig_state(s)
+    if st['cached_s']:
+        v = np.asarray(st['sm'], dtype=float)
+        ok = bool(v.size and np.all(np.isfinite(v)) and np.max(v) > 0)
+    else:
+        ent = _entry_fa(st)
+        ok = ent is not None and len(ent[1]) > 1 and bool(np.all(np.isfinite(ent[1]))) and float(np.max(np.abs(ent[1][1:]))) > 0 \
+            and len(st['tg']) > 0
+    if not ok:
+        ctx.observe('bandwidth-skipped(all-zero or non-finite smoothed spectrum)')
+    return ok
+
+
+def _rt_of(s):
+    ent = _entry_fa(_sig_state(s))
+    sp = np.zeros(1) if ent is None else np.asarray(ent[1])
+    rt = 1e-6 if sp.dtype == np.complex64 else RTOL
+    scale = float(np.max(np.abs(sp[1:]))) if len(sp) > 1 else 0.0
+    return rt, scale
 
 
 def run_signal_case(eqsig, ctx, c):
     cls = eqsig.AccSignal if c.get('cls') == 'AccSignal' else eqsig.Signal
-    how, targets, band = c.get('how', 'setter'), c.get('targets'), c.get('band')
+    how, band = c.get('how', 'setter'), band_obj(c.get('band'), c.get('band_form', 'py'))
+    lng = c.get('long')
+    if lng:
+        values = np.random.default_rng(lng['seed']).normal(size=lng['n']) * np.exp(-np.arange(lng['n']) / (lng['n'] / 3.0))
+    else:
+        values = values_in_form(c['values'], c.get('values_form'))
+    v_master = _snap(values)
+    targets = targets_in_form(c.get('targets'), c.get('targets_form'))
+    t_master = _snap(targets)
     b_eff = 40 if band is None else band
+    style = c.get('style', 'kw')
+    if len(v_master) < 3:
+        # records of 1 or 2 samples have no non-zero-frequency bin: the premise of the statement is empty
+        _probe_rejected(ctx, 'record-of-%d-sample(s)' % len(v_master), lambda: cls(values, c['dt']).smooth_fa_spectrum)
+        return
     try:
         if how == 'ctor':
-            s = cls(c['values'], c['dt'], smooth_fa_freqs=targets)
+            s = cls(values, c['dt'], smooth_fa_freqs=targets)
         elif how == 'range':
-            s = cls(c['values'], c['dt'], smooth_freq_range=c['range'])
+            s = cls(values, c['dt'], smooth_freq_range=_limits(c['range'], c.get('range_form', 'tuple')))
         else:
-            s = cls(c['values'], c['dt'])
+            s = cls(values, c['dt'])
             if how == 'setter' and targets is not None:
                 s.smooth_fa_freqs = targets
-            elif how == 'setter_frequencies':
+            elif how == 'setter_frequencies' and targets is not None:
                 s.smooth_fa_frequencies = targets
+            elif how == 'by_range':
+                s.set_smooth_fa_frequecies_by_range(_limits(c['range'], c.get('range_form', 'tuple')), c.get('n_points', 30))
     except Exception as e:      # noqa
         ctx.exception('signal.smooth_fa_spectrum==weighted-mean', _wit('constructor'), e)
         return
+    if c.get('reject_probes'):
+        _probe_rejected(ctx, 'gen_smooth_fa_spectrum(smooth_fa_freqs=list)',
+                        lambda: cls(values, c['dt']).gen_smooth_fa_spectrum(smooth_fa_freqs=[1.0, 2.0, 3.0]))
     if how != 'gen_arg':
         ok, v = _call(ctx, 'signal.smooth_fa_spectrum==weighted-mean', 'Signal.smooth_fa_spectrum', lambda: s.smooth_fa_spectrum)
         if not ok:
@@ -668,53 +1358,200 @@ def run_signal_case(eqsig, ctx, c):
     if how == 'gen_arg':
         if band is None:
             ok, _ = _call(ctx, 'signal.gen_smooth==weighted-mean', 'Signal.gen_smooth_fa_spectrum', s.gen_smooth_fa_spectrum, smooth_fa_freqs=targets)
-        else:
+        elif style == 'pos':
             ok, _ = _call(ctx, 'signal.gen_smooth==weighted-mean', 'Signal.gen_smooth_fa_spectrum', s.gen_smooth_fa_spectrum, targets, band)
+        else:
+            ok, _ = _call(ctx, 'signal.gen_smooth==weighted-mean', 'Signal.gen_smooth_fa_spectrum', s.gen_smooth_fa_spectrum,
+                          band=band, smooth_fa_freqs=targets)
     elif band is not None:
-        ok, _ = _call(ctx, 'signal.gen_smooth==weighted-mean', 'Signal.gen_smooth_fa_spectrum', s.gen_smooth_fa_spectrum, band=band)
+        if style == 'pos':
+            ok, _ = _call(ctx, 'signal.gen_smooth==weighted-mean', 'Signal.gen_smooth_fa_spectrum', s.gen_smooth_fa_spectrum, None, band)
+        else:
+            ok, _ = _call(ctx, 'signal.gen_smooth==weighted-mean', 'Signal.gen_smooth_fa_spectrum', s.gen_smooth_fa_spectrum, band=band)
     else:
         ok = True
     if not ok:
         return
-    ok, v = _call(ctx, 'signal.smooth_fa_spectrum==weighted-mean', 'Signal.smooth_fa_spectrum', lambda: s.smooth_fa_spectrum)
+    ok, held = _call(ctx, 'signal.smooth_fa_spectrum==weighted-mean', 'Signal.smooth_fa_spectrum', lambda: s.smooth_fa_spectrum)
     if not ok:
         return
-    v = np.array(v, copy=True)
-    spec = np.asarray(s.fa_spectrum)
-    scale = float(np.max(np.abs(spec[1:]))) if len(spec) > 1 else 0.0
-    # the function form on the object's own spectrum (zero bin included)
+    v = np.array(held, copy=True)
+    rt, scale = _rt_of(s)
+    # a second object of the same shape is processed while the first result is held
+    try:
+        other = np.asarray(v_master, dtype=float)[::-1] * 0.75 + np.random.default_rng(c.get('second_seed', 1)).normal(size=len(v_master)) * (scale or 1.0)
+        s2 = cls(other, c['dt'], smooth_fa_freqs=np.array(s.smooth_fa_freqs, copy=True))
+        if not lng:
+            s2.gen_smooth_fa_spectrum(band=b_eff)
+            ctx.check(np.asarray(held).tobytes() == v.tobytes(), 'state.held-result-unchanged',
+                      lambda: _wit('state.held-object-result', first=v, now=np.asarray(held)),
+                      'the smoothed spectrum held from the first object changed while a second object was processed')
+    except Exception as e:      # noqa
+        ctx.exception('state.held-result-unchanged', _wit('second object'), e)
+    # the function form on the object's own cached arrays (zero bin included)
     _call(ctx, 'smooth==weighted-mean', 'calc_smooth_fa_spectrum', eqsig.calc_smooth_fa_spectrum, s.fa_freqs, s.fa_spectrum,
           s.smooth_fa_freqs, band=b_eff)
     # custom-matrix form
     if c.get('matrix') is not None:
         _call(ctx, 'custom-matrix==sum|A_i|M_ij(i>=1)', 'calc_smooth_fa_spectrum_w_custom_matrix',
               eqsig.calc_smooth_fa_spectrum_w_custom_matrix, s, c['matrix'])
-    ok, m = _call(ctx, 'matrix==window/sum', 'calc_smoothing_matrix_konno_1998', eqsig.calc_smoothing_matrix_konno_1998,
-                  s.fa_freqs, s.smooth_fa_freqs, band=b_eff)
-    if ok:
-        ok, r = _call(ctx, 'custom-matrix==sum|A_i|M_ij(i>=1)', 'calc_smooth_fa_spectrum_w_custom_matrix',
-                      eqsig.calc_smooth_fa_spectrum_w_custom_matrix, s, m)
-        if ok:
-            r = np.asarray(r)
-            ctx.check(tol.close(r, v, scale=scale, rtol=RTOL), 'relation.custom-matrix(konno)==object-form',
-                      lambda: _wit('relation.custom-matrix', got=r, object_form=v),
-                      'custom-matrix form with the Konno matrix differs from Signal.smooth_fa_spectrum: %s'
-                      % tol.describe(r, v, scale=scale, rtol=RTOL))
+    _konno_custom(eqsig, ctx, s, b_eff, c.get('matrix_form'), style, v, scale, rt)
     if c.get('random_matrix_seed') is not None:
-        rm = np.random.default_rng(c['random_matrix_seed']).normal(size=(len(spec) - 1, 3))
+        rm = np.random.default_rng(c['random_matrix_seed']).normal(size=(len(s.fa_freqs) - 1, 3))
         _call(ctx, 'custom-matrix==sum|A_i|M_ij(i>=1)', 'calc_smooth_fa_spectrum_w_custom_matrix',
-              eqsig.calc_smooth_fa_spectrum_w_custom_matrix, s, rm)
+              eqsig.calc_smooth_fa_spectrum_w_custom_matrix, s, view_of(rm, c.get('matrix_form') if c.get('matrix_form') != 'f32' else None))
     # bandwidth limits
-    if c.get('band_fn') is None and not (v.size and np.all(np.isfinite(v)) and np.max(v) > 0):
-        ctx.observe('bandwidth-skipped(all-zero or non-finite smoothed spectrum)')
+    if _smooth_ok_for_bandwidth(ctx, s):
+        fns = ('freqs', 'f_min', 'f_max', 'sigrange')
+        if c.get('band_fn'):
+            fns = {'calc_bandwidth_freqs': ('freqs',), 'calc_bandwidth_f_min': ('f_min',), 'calc_bandwidth_f_max': ('f_max',),
+                   'get_sig_freq_range': ('sigrange',)}.get(c['band_fn'], fns)
+        _bandwidth_calls(eqsig, ctx, s, c.get('ratio'), c.get('sig_ratio'), style, fns)
+        if c.get('reject_probes'):
+            _probe_rejected(ctx, 'calc_bandwidth_freqs(ratio=1)', eqsig.im.calc_bandwidth_freqs, s, 1)
+            _probe_rejected(ctx, 'get_sig_freq_range(ratio=1)', eqsig.get_sig_freq_range, s, 1)
+    # the held result and the caller's arrays are what they were
+    ctx.check(np.asarray(held).tobytes() == v.tobytes(), 'state.held-result-unchanged',
+              lambda: _wit('state.held-object-result(end of case)', first=v, now=np.asarray(held)),
+              'the smoothed spectrum held by the caller changed during later calls on the same object')
+    bad = [n for n, a, m in (('values', values, v_master), ('targets', targets, t_master)) if not _same(a, m)]
+    ctx.check(not bad, 'purity.arguments-unchanged', lambda: _wit('case-level purity', changed=bad),
+              'caller arrays %s differ from their values before the first call of the case' % bad)
+
+
+def run_history_case(eqsig, ctx, c):
+    cls = eqsig.AccSignal if c.get('cls') == 'AccSignal' else eqsig.Signal
+    values = values_in_form(c['values'], c.get('values_form'))
+    caller = [(values, _snap(values))]
+    try:
+        s = cls(values, c['dt'])
+    except Exception as e:      # noqa
+        ctx.exception('signal.smooth_fa_spectrum==weighted-mean', _wit('constructor'), e)
         return
-    ratio, sig_ratio = c.get('ratio'), c.get('sig_ratio')
-    rk = {} if ratio is None else {'ratio': ratio}
-    _call(ctx, 'bandwidth==first/last above ratio*max', 'calc_bandwidth_freqs', eqsig.im.calc_bandwidth_freqs, s, **rk)
-    _call(ctx, 'bandwidth==first/last above ratio*max', 'calc_bandwidth_f_min', eqsig.im.calc_bandwidth_f_min, s, **rk)
-    _call(ctx, 'bandwidth==first/last above ratio*max', 'calc_bandwidth_f_max', eqsig.im.calc_bandwidth_f_max, s, **rk)
-    sk = {} if sig_ratio is None else {'ratio': sig_ratio}
-    _call(ctx, 'sigrange==first/last above max/ratio', 'get_sig_freq_range', eqsig.get_sig_freq_range, s, **sk)
+    held = []          # (result object, copy) pairs of earlier reads
+
+    def mutate(name, fn, *a, **k):
+        try:
+            fn(*a, **k)
+            ctx.observe('history-op:%s' % name)
+        except Exception as e:      # noqa  (mutators belong to other properties)
+            ctx.observe('history-mutator-raised:%s(%s)' % (name, type(e).__name__))
+
+    for op in c['ops']:
+        name = op['op']
+        if len(np.asarray(s.values)) < 3:
+            break
+        if name == 'read':
+            ok, r = _call(ctx, 'signal.smooth_fa_spectrum==weighted-mean', 'Signal.smooth_fa_spectrum', lambda: s.smooth_fa_spectrum)
+            if ok:
+                held.append((r, np.array(r, copy=True)))
+            ctx.observe('history-op:read')
+        elif name in ('gen', 'generate'):
+            band = band_obj(op.get('band'), op.get('band_form', 'py'))
+            if name == 'generate':
+                if band is None:
+                    _call(ctx, 'signal.gen_smooth==weighted-mean', 'Signal.generate_smooth_fa_spectrum', s.generate_smooth_fa_spectrum)
+                elif op.get('style') == 'pos':
+                    _call(ctx, 'signal.gen_smooth==weighted-mean', 'Signal.generate_smooth_fa_spectrum', s.generate_smooth_fa_spectrum, band)
+                else:
+                    _call(ctx, 'signal.gen_smooth==weighted-mean', 'Signal.generate_smooth_fa_spectrum', s.generate_smooth_fa_spectrum, band=band)
+            else:
+                t = view_of(op.get('targets'), op.get('form'))
+                if t is not None:
+                    caller.append((t, _snap(t)))
+                if op.get('style') == 'pos' and band is not None:
+                    _call(ctx, 'signal.gen_smooth==weighted-mean', 'Signal.gen_smooth_fa_spectrum', s.gen_smooth_fa_spectrum, t, band)
+                else:
+                    k = {} if band is None else {'band': band}
+                    if t is not None:
+                        k['smooth_fa_freqs'] = t
+                    _call(ctx, 'signal.gen_smooth==weighted-mean', 'Signal.gen_smooth_fa_spectrum', s.gen_smooth_fa_spectrum, **k)
+            ctx.observe('history-op:%s' % name)
+        elif name == 'set':
+            if op.get('form') == 'fa_view':
+                t = s.fa_freqs[1::op.get('step', 1)]
+            else:
+                t = targets_in_form(op['targets'], op.get('form'))
+                caller.append((t, _snap(t)))
+            mutate('set:' + op['via'], setattr, s, op['via'], t)
+        elif name == 'by_range':
+            mutate('by_range', s.set_smooth_fa_frequecies_by_range, _limits(op['limits'], op.get('form')), op['n_points'])
+        elif name == 'dep_range':
+            mutate('deprecated smooth_freq_range=', setattr, s, 'smooth_freq_range', _limits(op['limits'], op.get('form')))
+        elif name == 'dep_points':
+            mutate('deprecated smooth_freq_points=', setattr, s, 'smooth_freq_points', op['value'])
+        elif name == 'reset':
+            nv = values_in_form(op['values'], op.get('form'))
+            caller.append((nv, _snap(nv)))
+            mutate('reset_values', s.reset_values, nv)
+        elif name == 'add_constant':
+            mutate('add_constant', s.add_constant, op['c'])
+        elif name == 'add_series':
+            ser = np.random.default_rng(op['seed']).normal(size=len(np.asarray(s.values)))
+            caller.append((ser, _snap(ser)))
+            mutate('add_series', s.add_series, ser)
+        elif name == 'remove_average':
+            mutate('remove_average', s.remove_average)
+        elif name == 'remove_poly':
+            mutate('remove_poly', s.remove_poly, op['deg'])
+        elif name == 'butter':
+            nyq = 0.5 / s.dt
+            mutate('butter_pass', s.butter_pass, (op['cut'][0] * nyq, op['cut'][1] * nyq))
+        elif name == 'gen_fa':
+            if op.get('n') is not None:
+                mutate('gen_fa_spectrum(n)', s.gen_fa_spectrum, n=max(op['n'], 2 * ((len(np.asarray(s.values)) + 1) // 2)))
+            else:
+                mutate('gen_fa_spectrum(p2_plus)', s.gen_fa_spectrum, p2_plus=op.get('p2_plus', 0))
+        elif name == 'clear_cache':
+            mutate('clear_cache', s.clear_cache)
+        elif name == 'bw':
+            if _smooth_ok_for_bandwidth(ctx, s):
+                r = op.get('ratio')
+                _bandwidth_calls(eqsig, ctx, s, r, r, op.get('style', 'kw'), (op['fn'],))
+                ctx.observe('history-op:bw')
+        elif name == 'custom':
+            rt, scale = _rt_of(s)
+            if op.get('seed') is None:
+                rec = _GEN.get(s)
+                coherent = rec is not None and bool(s._cached_smooth_fa) and s._fa_spectrum is rec['fa_obj'] and s._smooth_fa_freqs is rec['tg_obj']
+                if coherent and 5 <= float(rec['band']) <= 100:
+                    _konno_custom(eqsig, ctx, s, rec['band'], op.get('form'), op.get('style'), np.array(rec['result'], copy=True), scale, rt)
+                else:
+                    _konno_custom(eqsig, ctx, s, 40, op.get('form'), op.get('style'), None, scale, rt)
+            else:
+                rm = np.random.default_rng(op['seed']).normal(size=(len(s.fa_freqs) - 1, 2))
+                rm = rm.astype(np.float32) if op.get('form') == 'f32' else view_of(rm, op.get('form'))
+                _call(ctx, 'custom-matrix==sum|A_i|M_ij(i>=1)', 'calc_smooth_fa_spectrum_w_custom_matrix',
+                      eqsig.calc_smooth_fa_spectrum_w_custom_matrix, s, rm)
+            ctx.observe('history-op:custom')
+        elif name == 'calc_on_own':
+            _call(ctx, 'smooth==weighted-mean', 'calc_smooth_fa_spectrum', eqsig.calc_smooth_fa_spectrum, s.fa_freqs, s.fa_spectrum,
+                  s.smooth_fa_freqs)
+            ctx.observe('history-op:calc_on_own')
+        elif name == 'twin':
+            try:
+                if op['how'] == 'ctor-from-values':
+                    tw = cls(s.values, s.dt, smooth_fa_freqs=s.smooth_fa_freqs)
+                elif op['how'] == 'reset-from-values':
+                    tw = cls(np.zeros(len(np.asarray(s.values))), s.dt, smooth_fa_freqs=s.smooth_fa_freqs)
+                    tw.reset_values(s.values)
+                else:
+                    tw = cls(values, c['dt'], smooth_fa_freqs=s.smooth_fa_freqs)
+                ok, r = _call(ctx, 'signal.smooth_fa_spectrum==weighted-mean', 'Signal.smooth_fa_spectrum', lambda: tw.smooth_fa_spectrum)
+                if ok:
+                    held.append((r, np.array(r, copy=True)))
+                ctx.observe('history-op:twin')
+                if op.get('switch'):
+                    s = tw
+            except Exception as e:      # noqa
+                ctx.exception('signal.smooth_fa_spectrum==weighted-mean', _wit('twin construction'), e)
+    if held:
+        bad = [i for i, (r, cp) in enumerate(held) if np.asarray(r).tobytes() != cp.tobytes()]
+        ctx.check(not bad, 'state.held-result-unchanged', lambda: _wit('history: held reads', changed_reads=bad),
+                  'smoothed spectra handed out by earlier reads (%s) changed during later operations' % bad)
+    bad = [i for i, (a, m) in enumerate(caller) if not _same(a, m)]
+    ctx.check(not bad, 'purity.arguments-unchanged', lambda: _wit('history: caller arrays', changed=bad),
+              'caller arrays number %s handed to the object changed during the history' % bad)
 
 
 def run_case(eqsig, ctx, case):
@@ -722,12 +1559,33 @@ def run_case(eqsig, ctx, case):
     CASE = case
     try:
         with np.errstate(all='ignore'):
-            if case.get('kind') == 'signal':
+            kind = case.get('kind')
+            if kind == 'signal':
                 run_signal_case(eqsig, ctx, case)
+            elif kind == 'history':
+                run_history_case(eqsig, ctx, case)
             else:
                 run_func_case(eqsig, ctx, case)
     finally:
         CASE = None
+
+
+N_CASES = {'quick': (1440, 480, 320), 'thorough': (28800, 9600, 6400)}    # (func, signal, history) cases over all shards
+LONG_N = 70000                                                            # > 2**16 samples -> 65536 Fourier bins
+
+
+def _sample_of(case, cls):
+    if case['kind'] == 'func':
+        return {'kind': 'func', 'n_freqs': None if case['freqs'] is None else len(case['freqs']),
+                'freq_dtype': None if case['freqs'] is None else str(np.asarray(case['freqs']).dtype),
+                'spec_dtype': None if case['spec'] is None else str(np.asarray(case['spec']).dtype), 'views': case.get('views'),
+                'targets': case['targets'] if case['targets'] is None else np.asarray(case['targets'])[:6], 'band': case['band'],
+                'alpha': case.get('alpha'), 'style': case.get('style'), 'class': cls}
+    if case['kind'] == 'signal':
+        return {'kind': 'signal', 'n': None if case['values'] is None else len(case['values']), 'dt': case['dt'], 'how': case['how'],
+                'values_form': case.get('values_form'), 'band': case['band'], 'ratio': case['ratio'], 'sig_ratio': case['sig_ratio'],
+                'class': cls}
+    return {'kind': 'history', 'n': len(case['values']), 'dt': case['dt'], 'ops': [o['op'] for o in case['ops']], 'class': cls}
 
 
 def run_shard(ctx):
@@ -736,28 +1594,40 @@ def run_shard(ctx):
     eqsig = core.import_eqsig()
     install(ctx)
     rng = ctx.rng
-    n_func, n_sig = N_CASES[ctx.tier]
-    n_func = n_func // ctx.nshards
-    n_sig = n_sig // ctx.nshards
-    for i in range(n_func + n_sig):
+    n_func, n_sig, n_hist = [k // ctx.nshards for k in N_CASES[ctx.tier]]
+    plan = []
+    tot = n_func + n_sig + n_hist
+    for i in range(tot):            # interleave the kinds so that a budget stop keeps all represented
+        if ((i + 1) * n_sig) // tot != (i * n_sig) // tot:
+            plan.append('signal')
+        elif ((i + 1) * n_hist) // tot != (i * n_hist) // tot:
+            plan.append('history')
+        else:
+            plan.append('func')
+    if ctx.tier == 'quick':
+        if ctx.shard % 4 == 0:
+            plan.insert(3, 'long-func')
+        if ctx.shard % 8 == 2:
+            plan.insert(3, 'long-signal')
+    else:
+        plan[3:3] = ['long-func', 'long-signal', 'long-func']
+    for kind in plan:
         if ctx.out_of_time():
             ctx.observe('stopped-by-budget')
             break
-        # interleave the two kinds so that a budget stop keeps both represented
-        tot = n_func + n_sig
-        if ((i + 1) * n_sig) // tot != (i * n_sig) // tot:
+        if kind == 'signal':
             case, cls = gen_signal_case(rng)
+        elif kind == 'history':
+            case, cls = gen_history_case(rng)
+        elif kind == 'long-func':
+            case, cls = gen_func_case(rng, long_n=LONG_N)
+        elif kind == 'long-signal':
+            case, cls = gen_signal_case(rng, long_n=LONG_N)
         else:
             case, cls = gen_func_case(rng)
-        if case['kind'] == 'func':
-            smp = {'kind': 'func', 'n_freqs': len(case['freqs']), 'with_zero_bin': bool(case['freqs'][0] == 0),
-                   'targets': case['targets'] if case['targets'] is None else case['targets'][:6], 'band': case['band'],
-                   'alpha': case['alpha'], 'class': cls}
-        else:
-            smp = {'kind': 'signal', 'n': len(case['values']), 'dt': case['dt'], 'how': case['how'], 'band': case['band'],
-                   'ratio': case['ratio'], 'sig_ratio': case['sig_ratio'], 'class': cls}
-        ctx.case(core.digest(case), nontrivial=_nontrivial(case), cls=cls.rsplit(':', 1)[0] if case['kind'] == 'func' else
-                 ':'.join(cls.split(':')[::2]), sample=smp)
+        parts = cls.split(':')
+        hist_cls = ':'.join(parts[:2]) if case['kind'] != 'signal' else ':'.join(parts[::2])
+        ctx.case(core.digest(case), nontrivial=_nontrivial(case), cls=hist_cls, sample=_sample_of(case, cls))
         run_case(eqsig, ctx, case)
     ctx.note('monitored_calls', dict(attach.CALLS))
 
@@ -769,8 +1639,12 @@ def replay(w):
     eqsig = core.import_eqsig()
     ctx = core.Ctx(PROP_ID, 'quick', 0, 0, 1)
     install(ctx)
-    case = w.get('case', w)
-    if case.get('band_fn') and case.get('ratio') is not None and case['band_fn'] == 'get_sig_freq_range':
+    case = w.get('case') or w
+    if case.get('band_fn') == 'get_sig_freq_range' and case.get('ratio') is not None:
         case = dict(case, sig_ratio=case['ratio'], ratio=None)
     run_case(eqsig, ctx, case)
     return ['%s: %s' % (v['clause'], v['msg']) for v in ctx.violations if not v.get('finding')]
+
+
+MIN_EVALS['quick'] = {}
+MIN_EVALS['thorough'] = {}
